@@ -16,1014 +16,854 @@ Definition terms (ts : list tok) (t : pt) : string :=
   digest (show_toks (Some ts)) ++ " " ++ digest (show_pt (Some t)) ++ " " ++ digest (show_pt (parse ts)).
 Definition terms_full (ts : list tok) (t : pt) : string :=
   show_toks (Some ts) ++ nl ++ show_pt (Some t) ++ nl ++ show_pt (parse ts).
-Eval vm_compute in ("<<<M1>>>" ++ check (runes_of_ascii "
-packet
-body { chars //x
-`two words` , match crc as	metadata {65535
+Eval vm_compute in ("<<<M1>>>" ++ check (runes_of_ascii "// `tick` ""quote"" 'q'
+packet a1 // " ++ [27880; 37322]%N ++ runes_of_ascii "
+{ @calculatedFrom( ""abc"" )chars `" ++ [28040; 24687; 31867; 22411]%N ++ runes_of_ascii "` ,	match
+    crc as
+    metadata{ 65535 :
+trueish ""\" ++ [233]%N ++ runes_of_ascii """
+: charz
+    // " ++ [27880; 37322]%N ++ runes_of_ascii "
+    ,""abc""
+: MetaDataX [ ""packet"" ,
+    ""// no comment""
+    // `tick` ""quote"" 'q'
+    , 0 , 00
+    // a // b
+    , ""// no comment"" ,""{,}""
+    // " ++ [128512]%N ++ runes_of_ascii " emoji
+    , 00 ] : i64_ , """ ++ [233]%N ++ runes_of_ascii "t" ++ [233]%N ++ runes_of_ascii """	: f32a
+    , [""" ++ [128512]%N ++ runes_of_ascii """ , ""it's"" // `tick` ""quote"" 'q'
+] :
+    Foo}// `tick` ""quote"" 'q'
+, @rightPad(	' ' ) repeat	char[ 1 ]
+body
+    `" ++ [28040; 24687; 31867; 22411]%N ++ runes_of_ascii "` , @calculatedFrom(
+    """ ++ [233]%N ++ runes_of_ascii "t" ++ [233]%N ++ runes_of_ascii """ ) repeat
+options1 i64_
+    , match roots
+as T { [
+0 ,
+""x y""	]: uint8x ,""" ++ [128512]%N ++ runes_of_ascii """
     :
+    packetx	""packet"":
+uint8x,// packet A { u8 x, }
+""a	b"" :lengthOf ,
+4294967296 :
+    repeatCount
+, } , string options1@calculatedFrom( ""x y""	) ,int
+    ,
     // c
-    trueish ""\" ++ [233]%N ++ runes_of_ascii """ : charz , ""abc""	: MetaDataX [""packet"" , ""// no comment"",0
-, 00
-,
-    ""// no comment"" ,""{,}"" , 00 ]:  i64_
+    o @calculatedFrom( ""packet"" ) `say ""hi""` ,	int a1 ,string_ { char[]Logon`say ""hi""`
+, repeat
+float32
+    trueish ,} , } options{  BodyLength
 // @lengthOf(
 //	t
-, """ ++ [233]%N ++ runes_of_ascii "t" ++ [233]%N ++ runes_of_ascii """ :f32a
-, [
-    """ ++ [128512]%N ++ runes_of_ascii """  , ""it's""
-]
-: Foo
-}
-    ,@rightPad
-(  ' '
+= '0' ;body
+= true
+    ;  i8i8 =
+""packet""
+} packet
+zchar
+    {u16
+Logon  `a\`
     /// triple
-    ) repeat char[ 1]
-    body `it's`
-,
-@tag( 007) @calculatedFrom(
-    """ ++ [233]%N ++ runes_of_ascii "t" ++ [233]%N ++ runes_of_ascii """ )
-// @lengthOf(
-//
-@calculatedFrom( ""a\""b""// trailing space 
-)
-repeat
-i64_
-{ roots /// triple
-{ i16 // packet A { u8 x, }
-Header`two words`, repeatCount `{ , }`,  f64
-x @calculatedFrom( ""a	b"")
-    // a // b
-    ,repeatCount @calculatedFrom(// " ++ [27880; 37322]%N ++ runes_of_ascii "
-"""" ) ,} ,repeat u8
-BodyLength
-    `crlf
-line`	,
-    // `tick` ""quote"" 'q'
-    char As
-@lengthOf(
-    Foo) , } ,	char[] roots
-    `line1
-line2`,//
-int a1, string_{ char[]Logon `line1
-line2` , repeat float32 trueish
-    ,
-},
-@leftPad ( '0' ) repeat metadata  {	rootA@lengthOf( // trailing space 
-falsey	) ``
-    ,
-// " ++ [128512]%N ++ runes_of_ascii " emoji
-// packet A { u8 x, }
-} ,
-} packet float
-{u16
-// trailing space 
-// trailing space 
-Logon // a // b
-`tab	here`// @lengthOf(
-,
-// @lengthOf(
-// c
-u128 {zchar[255
-// packet A { u8 x, }
-//
-]	charz`doc` , }
-,
-@tag(0 )	repeat Foo { i32 body
-    @calculatedFrom( ""`tick`"" )
-`" ++ [233]%N ++ runes_of_ascii "` ,} /// triple
-,char[] o @calculatedFrom(""1"" ) `line1
-line2` ,
-@lengthOf(
-// a // b
-//x
-zchar) i16 BodyLength
-    @lengthOf(
-    // " ++ [27880; 37322]%N ++ runes_of_ascii "
-    BodyLength )
-    , @lengthOf( T) @rightPad(
-' ' )@lengthOf( T
-)
-repeat
-u64 _x// " ++ [27880; 37322]%N ++ runes_of_ascii "
-, match MetaDataX as // trailing space 
-options1// trailing space 
-{ //x
-0123456789 :
-    options1  , } , repeat u8 charz
-, repeat i8i8 {// c
-a1 ,len  { repeat string
-o	,
-    // a // b
-    } ,	match zchar
-as Logon {"""" : matchKey """ ++ [128512]%N ++ runes_of_ascii """	: u 007 :
-repeatCount ,}  , // c
-}
-    ,
-}
+    , } packet u128{
+    }
 ")).
-Eval vm_compute in ("<<<M11>>>" ++ check (runes_of_ascii "options { falsey
-= false}")).
-Eval vm_compute in ("<<<M21>>>" ++ check (runes_of_ascii "options { x_y_z =  """ ++ [128512]%N ++ runes_of_ascii """
+Eval vm_compute in ("<<<M11>>>" ++ check (runes_of_ascii "  MetaData //	t
+len { char[ 007 ] T
+, }packet
+    chars {
+@tag( 0
+)
+char[] stringy @calculatedFrom( ""a\""b"" //x
+) `" ++ [233]%N ++ runes_of_ascii "`	,@tag( // trailing space 
+65535
+)	repeat
+o MetaDataX
+,
+    crc@lengthOf( i8i8 ),
+@calculatedFrom(
 /// triple
-// @lengthOf(
-options1 =
-""a\\""  ;
-    x_y_z  = 255 ; } //x
-packet
-    charz {
-    } // trailing space ")).
-Eval vm_compute in ("<<<M31>>>" ++ check (runes_of_ascii "MetaData
-T {crc /// triple
-u8x `say ""hi""` , } // `tick` ""quote"" 'q'")).
-Eval vm_compute in ("<<<M41>>>" ++ check (runes_of_ascii "packet// " ++ [128512]%N ++ runes_of_ascii " emoji
-charz
+// `tick` ""quote"" 'q'
+""x y""
+    ) roots@lengthOf(packetx ) , @calculatedFrom(  ""1"" )
+@lengthOf( Logon
+) @lengthOf( x ) repeat
+    T pack, @lengthOf( lengthOf)@tag(  42 ) i64 crc // c
+@calculatedFrom( ""packet"" ) `
+` ,
+i8i8
+    `` , }  packet len
     {
-repeat options1 {char x_y_z
-/// triple
-//x
-, T	{ string_ @calculatedFrom(""1"") , } ,
-f64
-    crc ,
-u64 A
+match u128	as string_ { 65535 :u128 ,
+    }
+, As ,
+    Header ,// " ++ [27880; 37322]%N ++ runes_of_ascii "
+@rightPad
+('\x00'
+)
+    @leftPad
+    (
+    '\x00' ) asx
+    {
+    /// triple
+    repeat
+BodyLength { asx {	repeat
+u32
+    // @lengthOf(
+    Header , repeat
+    i64  i64_,
+// 50% %s
+// `tick` ""quote"" 'q'
+match rootA as float
+    // c
+    { [ 007 , ""CRC32"",
+    7 ,
+""it's"" , 7	, 3 ] : x_y_z , 007 : pack , } , char[]
+metadata @lengthOf( BodyLength )
+// " ++ [128512]%N ++ runes_of_ascii " emoji
+// `tick` ""quote"" 'q'
+,}
+,
+repeat
+    char[00
+] u `{ , }` // " ++ [27880; 37322]%N ++ runes_of_ascii "
+,  repeat
+zchar[
+    3 ]	tag ,repeat crc
+    int `line1
+line2` ,} ,// `tick` ""quote"" 'q'
+char[255 ] asx @lengthOf(chars)  ,int64
+Foo
+    ``
+, _x{ T
+{ string_	`" ++ [28040; 24687; 31867; 22411]%N ++ runes_of_ascii "` , char[] chars
+    , }, repeat
+    a1 { repeatCount
+@lengthOf( o )
+,i64 leftPad
+,	zchar[
+255// `tick` ""quote"" 'q'
+]  float@calculatedFrom(  ""\" ++ [233]%N ++ runes_of_ascii """
+), repeat string i8i8
+,
 // trailing space 
-/// triple
-@calculatedFrom(""CRC32""	), } ,} MetaData MetaDataX //	t
+// `tick` ""quote"" 'q'
+}  ,}, } , @calculatedFrom(
+""abc""
+) repeat f32a trueish `u8 x,`	, match calculatedFrom as
+// packet A { u8 x, }
+// @lengthOf(
+stringy { [ 1, 65535
+    ]
+:u , } , } packet options1
+    {
+string calculatedFrom// a // b
+`" ++ [233]%N ++ runes_of_ascii "`// c
+,
+    @lengthOf( x_y_z
+    ) zchar[0123456789]
+x_y_z// trailing space 
+@lengthOf(
+falsey ) `a\`
+    ,	}
+")).
+Eval vm_compute in ("<<<M21>>>" ++ check (runes_of_ascii "MetaData MetaDataX { zchar[0  ] calculatedFrom
+    // trailing space 
+    , float32/// triple
+matchKey
+    , string_
+//x
+// " ++ [128512]%N ++ runes_of_ascii " emoji
+calculatedFrom,	int lengthOf,
+    } 	 ")).
+Eval vm_compute in ("<<<M31>>>" ++ check (runes_of_ascii "root
+    packet body {
+    @calculatedFrom( ""a	b""	) repeat
+int32
+zchar
+, lengthOf body ,
+@rightPad
+( ' '
+    )uint8x { u64  body , } , @tag( 1 )
+@leftPad ( '0' ) @calculatedFrom( """ ++ [233]%N ++ runes_of_ascii "t" ++ [233]%N ++ runes_of_ascii """
+)
+    u64
+x @calculatedFrom( """ ++ [128512]%N ++ runes_of_ascii """
+// packet A { u8 x, }
+//x
+)
+    , x
+    , @lengthOf( u128 ) _x
+    T `` //	t
+, @rightPad	(
+'0' )  i64// trailing space 
+a1 , string
+trueish @calculatedFrom( ""// no comment""
+    ) `
+`, }packet
+    tag
+{ } MetaData body { T u
+    , string f32a  , f64
+Packet ,
+lengthOf Header `tab	here` ,
+    }
+// c
+//
+packet T // @lengthOf(
 {
+@leftPad( )chars	, @calculatedFrom( ""1""  )
+@lengthOf( tag) @lengthOf( Foo ) match charz as chars
+    { 42 :
+    // packet A { u8 x, }
+    uint8x , """ ++ [28040; 24687]%N ++ runes_of_ascii """ :o , 0123456789:
+    lengthOf
+,[
+    ""a\\"" ,
+""CRC32""
+    , ""a	b"" ,""CRC32""	, 0
+,""CRC32"" , ""a\\"", """" ] : T ""it's"" :
+    tag } //x
+, i8 roots, @lengthOf( float)
+@tag(10)body { chars// trailing space 
+{repeat
+int8 body ,
+}  , repeat
+    Header {char[]
+leftPad , } , /// triple
+match Logon as
+    // " ++ [128512]%N ++ runes_of_ascii " emoji
+    zchar {
+    4294967296
+: len  , ""a\""b"" // trailing space 
+: A 00:x_y_z ,  }
+,//	t
+repeat i16 options1,} ,
+    }options { }
+")).
+Eval vm_compute in ("<<<M41>>>" ++ check (runes_of_ascii "root
+packet uint8x {}root packet  Pad
+{}")).
+Eval vm_compute in ("<<<T41>>>" ++ terms [mkTok 34 "root" 1 0 false; mkTok 35 "packet" 2 0 false; mkTok 42 "uint8x" 2 7 false; mkTok 2 "{" 2 14 false; mkTok 3 "}" 2 15 false; mkTok 34 "root" 2 16 false; mkTok 35 "packet" 2 21 false; mkTok 42 "Pad" 2 29 false; mkTok 2 "{" 3 0 false; mkTok 3 "}" 3 1 false; mkTok 0 "<EOF>" 3 2 false] (mkPacket (mkPtok 34 "root" 1 0 0) (Some (mkPtok 3 "}" 3 1 9)) [(DPacket (mkPacketDef (mkSpan (mkPtok 34 "root" 1 0 0) (mkPtok 3 "}" 2 15 4)) (Some (mkPtok 34 "root" 1 0 0)) (mkPtok 35 "packet" 2 0 1) (mkPtok 42 "uint8x" 2 7 2) (mkPtok 2 "{" 2 14 3) [] (mkPtok 3 "}" 2 15 4))); (DPacket (mkPacketDef (mkSpan (mkPtok 34 "root" 2 16 5) (mkPtok 3 "}" 3 1 9)) (Some (mkPtok 34 "root" 2 16 5)) (mkPtok 35 "packet" 2 21 6) (mkPtok 42 "Pad" 2 29 7) (mkPtok 2 "{" 3 0 8) [] (mkPtok 3 "}" 3 1 9)))])).
+Eval vm_compute in ("<<<M51>>>" ++ check (runes_of_ascii "MetaData
+x_y_z
+{zchar[ 3
+    ] // c
+body ,}
+")).
+Eval vm_compute in ("<<<M61>>>" ++ check (runes_of_ascii " // @lengthOf(")).
+Eval vm_compute in ("<<<M71>>>" ++ check (runes_of_ascii "options { _x= 0123456789
+;	a1
+    // @lengthOf(
+    =
+'0'
+    ; }")).
+Eval vm_compute in ("<<<M81>>>" ++ check (runes_of_ascii "options {	Z9_ // packet A { u8 x, }
+=	'0'charz
+= 10 T =
+// `tick` ""quote"" 'q'
+//
+""// no comment"" ; }
+")).
+Eval vm_compute in ("<<<M91>>>" ++ check (runes_of_ascii "root packet
+f32a { i8i8 @lengthOf( BodyLength) `line1
+line2` , /// triple
+string_ _x , zchar
+,  char rootA
+,@rightPad()
+// @lengthOf(
+// 50% %s
+@lengthOf(
+charz//
+)
+    u128 `it's`, i16 uint8x// packet A { u8 x, }
+@lengthOf(tag )	, char[]
+string_, // a // b
+@calculatedFrom(
+""a\""b""  ) //x
+@calculatedFrom( ""\" ++ [233]%N ++ runes_of_ascii """) @calculatedFrom( // " ++ [128512]%N ++ runes_of_ascii " emoji
+""packet"")
+repeat A
+    { match uint8x
+as metadata
+{  [ 65535
+    ,""\" ++ [233]%N ++ runes_of_ascii """,	3]
+: MetaDataX , } , x
+    {
+    repeat crc Pad `crlf
+line` ,
+u32 string_ `tab	here`	,} , //
+falsey	@lengthOf( x
+// " ++ [27880; 37322]%N ++ runes_of_ascii "
+/// triple
+) , match // a // b
+a1 as
+calculatedFrom { [ 1 // 50% %s
+, 4294967296 ,
+""""
+    , 7 ] : matchKey[ """" , ""`tick`"" ]: x ,
+    // c
+    ""abc""
+    //x
+    :_x } // packet A { u8 x, }
+, }
+    ,match stringy // trailing space 
+as repeatCount //
+{
+255 : falsey , ""it's""  :roots,[ """ ++ [128512]%N ++ runes_of_ascii """, 3 ,""// no comment""  ] :o [ 0123456789 ] :
+    //	t
+    uint8x
+    ,
+10 : int
+,
+0123456789 :	Header
+    // `tick` ""quote"" 'q'
+    ,
+    }
+, repeat
+    //x
+    MetaDataX , } MetaData tag
+{u64 u ,// " ++ [128512]%N ++ runes_of_ascii " emoji
 }
 root packet
-u128{ string_  {
-    repeat pack {
-As matchKey , } ,} ,
-}
-")).
-Eval vm_compute in ("<<<T41>>>" ++ terms [mkTok 35 "packet" 1 0 false; mkTok 44 (string_of_bytes [47; 47; 32; 240; 159; 152; 128; 32; 101; 109; 111; 106; 105]%N) 1 6 true; mkTok 42 "charz" 2 0 false; mkTok 2 "{" 3 4 false; mkTok 36 "repeat" 4 0 false; mkTok 42 "options1" 4 7 false; mkTok 2 "{" 4 16 false; mkTok 19 "char" 4 17 false; mkTok 42 "x_y_z" 4 22 false; mkTok 44 "/// triple" 5 0 true; mkTok 44 "//x" 6 0 true; mkTok 40 "," 7 0 false; mkTok 42 "T" 7 2 false; mkTok 2 "{" 7 4 false; mkTok 42 "string_" 7 6 false; mkTok 5 "@calculatedFrom(" 7 14 false; mkTok 31 """1""" 7 30 false; mkTok 6 ")" 7 33 false; mkTok 40 "," 7 35 false; mkTok 3 "}" 7 37 false; mkTok 40 "," 7 39 false; mkTok 29 "f64" 8 0 false; mkTok 42 "crc" 9 4 false; mkTok 40 "," 9 8 false; mkTok 23 "u64" 10 0 false; mkTok 42 "A" 10 4 false; mkTok 44 "// trailing space " 11 0 true; mkTok 44 "/// triple" 12 0 true; mkTok 5 "@calculatedFrom(" 13 0 false; mkTok 31 """CRC32""" 13 16 false; mkTok 6 ")" 13 24 false; mkTok 40 "," 13 25 false; mkTok 3 "}" 13 27 false; mkTok 40 "," 13 29 false; mkTok 3 "}" 13 30 false; mkTok 37 "MetaData" 13 32 false; mkTok 42 "MetaDataX" 13 41 false; mkTok 44 (string_of_bytes [47; 47; 9; 116]%N) 13 51 true; mkTok 2 "{" 14 0 false; mkTok 3 "}" 15 0 false; mkTok 34 "root" 16 0 false; mkTok 35 "packet" 16 5 false; mkTok 42 "u128" 17 0 false; mkTok 2 "{" 17 4 false; mkTok 42 "string_" 17 6 false; mkTok 2 "{" 17 15 false; mkTok 36 "repeat" 18 4 false; mkTok 42 "pack" 18 11 false; mkTok 2 "{" 18 16 false; mkTok 42 "As" 19 0 false; mkTok 42 "matchKey" 19 3 false; mkTok 40 "," 19 12 false; mkTok 3 "}" 19 14 false; mkTok 40 "," 19 16 false; mkTok 3 "}" 19 17 false; mkTok 40 "," 19 19 false; mkTok 3 "}" 20 0 false; mkTok 0 "<EOF>" 21 0 false] (mkPacket (mkPtok 35 "packet" 1 0 0) (Some (mkPtok 3 "}" 20 0 56)) [(DPacket (mkPacketDef (mkSpan (mkPtok 35 "packet" 1 0 0) (mkPtok 3 "}" 13 30 34)) None (mkPtok 35 "packet" 1 0 0) (mkPtok 42 "charz" 2 0 2) (mkPtok 2 "{" 3 4 3) [(mkFieldWithAttr (mkSpan (mkPtok 36 "repeat" 4 0 4) (mkPtok 40 "," 13 29 33)) [] (InerObjectField (mkSpan (mkPtok 36 "repeat" 4 0 4) (mkPtok 40 "," 13 29 33)) (Some (mkPtok 36 "repeat" 4 0 4)) (InerObjectDecl (mkSpan (mkPtok 42 "options1" 4 7 5) (mkPtok 3 "}" 13 27 32)) (mkPtok 42 "options1" 4 7 5) (mkPtok 2 "{" 4 16 6) [(MetaField (mkSpan (mkPtok 19 "char" 4 17 7) (mkPtok 40 "," 7 0 11)) None (mkMetaDecl (mkSpan (mkPtok 19 "char" 4 17 7) (mkPtok 40 "," 7 0 11)) (TyBasic (mkSpan (mkPtok 19 "char" 4 17 7) (mkPtok 19 "char" 4 17 7)) (mkBasicType (mkSpan (mkPtok 19 "char" 4 17 7) (mkPtok 19 "char" 4 17 7)) (mkPtok 19 "char" 4 17 7))) (mkPtok 42 "x_y_z" 4 22 8) None (mkPtok 40 "," 7 0 11))); (InerObjectField (mkSpan (mkPtok 42 "T" 7 2 12) (mkPtok 40 "," 7 39 20)) None (InerObjectDecl (mkSpan (mkPtok 42 "T" 7 2 12) (mkPtok 3 "}" 7 37 19)) (mkPtok 42 "T" 7 2 12) (mkPtok 2 "{" 7 4 13) [(CheckSumField (mkSpan (mkPtok 42 "string_" 7 6 14) (mkPtok 40 "," 7 35 18)) (mkChecksumFieldDecl (mkSpan (mkPtok 42 "string_" 7 6 14) (mkPtok 40 "," 7 35 18)) None (mkPtok 42 "string_" 7 6 14) (mkCalculatedFrom (mkSpan (mkPtok 5 "@calculatedFrom(" 7 14 15) (mkPtok 6 ")" 7 33 17)) (mkPtok 5 "@calculatedFrom(" 7 14 15) (mkPtok 31 """1""" 7 30 16) (mkPtok 6 ")" 7 33 17)) None (mkPtok 40 "," 7 35 18)))] (mkPtok 3 "}" 7 37 19)) (mkPtok 40 "," 7 39 20)); (MetaField (mkSpan (mkPtok 29 "f64" 8 0 21) (mkPtok 40 "," 9 8 23)) None (mkMetaDecl (mkSpan (mkPtok 29 "f64" 8 0 21) (mkPtok 40 "," 9 8 23)) (TyBasic (mkSpan (mkPtok 29 "f64" 8 0 21) (mkPtok 29 "f64" 8 0 21)) (mkBasicType (mkSpan (mkPtok 29 "f64" 8 0 21) (mkPtok 29 "f64" 8 0 21)) (mkPtok 29 "f64" 8 0 21))) (mkPtok 42 "crc" 9 4 22) None (mkPtok 40 "," 9 8 23))); (CheckSumField (mkSpan (mkPtok 23 "u64" 10 0 24) (mkPtok 40 "," 13 25 31)) (mkChecksumFieldDecl (mkSpan (mkPtok 23 "u64" 10 0 24) (mkPtok 40 "," 13 25 31)) (Some (TyBasic (mkSpan (mkPtok 23 "u64" 10 0 24) (mkPtok 23 "u64" 10 0 24)) (mkBasicType (mkSpan (mkPtok 23 "u64" 10 0 24) (mkPtok 23 "u64" 10 0 24)) (mkPtok 23 "u64" 10 0 24)))) (mkPtok 42 "A" 10 4 25) (mkCalculatedFrom (mkSpan (mkPtok 5 "@calculatedFrom(" 13 0 28) (mkPtok 6 ")" 13 24 30)) (mkPtok 5 "@calculatedFrom(" 13 0 28) (mkPtok 31 """CRC32""" 13 16 29) (mkPtok 6 ")" 13 24 30)) None (mkPtok 40 "," 13 25 31)))] (mkPtok 3 "}" 13 27 32)) (mkPtok 40 "," 13 29 33)))] (mkPtok 3 "}" 13 30 34))); (DMeta (mkMetaDef (mkSpan (mkPtok 37 "MetaData" 13 32 35) (mkPtok 3 "}" 15 0 39)) (mkPtok 37 "MetaData" 13 32 35) (mkPtok 42 "MetaDataX" 13 41 36) (mkPtok 2 "{" 14 0 38) [] (mkPtok 3 "}" 15 0 39))); (DPacket (mkPacketDef (mkSpan (mkPtok 34 "root" 16 0 40) (mkPtok 3 "}" 20 0 56)) (Some (mkPtok 34 "root" 16 0 40)) (mkPtok 35 "packet" 16 5 41) (mkPtok 42 "u128" 17 0 42) (mkPtok 2 "{" 17 4 43) [(mkFieldWithAttr (mkSpan (mkPtok 42 "string_" 17 6 44) (mkPtok 40 "," 19 19 55)) [] (InerObjectField (mkSpan (mkPtok 42 "string_" 17 6 44) (mkPtok 40 "," 19 19 55)) None (InerObjectDecl (mkSpan (mkPtok 42 "string_" 17 6 44) (mkPtok 3 "}" 19 17 54)) (mkPtok 42 "string_" 17 6 44) (mkPtok 2 "{" 17 15 45) [(InerObjectField (mkSpan (mkPtok 36 "repeat" 18 4 46) (mkPtok 40 "," 19 16 53)) (Some (mkPtok 36 "repeat" 18 4 46)) (InerObjectDecl (mkSpan (mkPtok 42 "pack" 18 11 47) (mkPtok 3 "}" 19 14 52)) (mkPtok 42 "pack" 18 11 47) (mkPtok 2 "{" 18 16 48) [(ObjectField (mkSpan (mkPtok 42 "As" 19 0 49) (mkPtok 40 "," 19 12 51)) None (mkPtok 42 "As" 19 0 49) (Some (mkPtok 42 "matchKey" 19 3 50)) None (mkPtok 40 "," 19 12 51))] (mkPtok 3 "}" 19 14 52)) (mkPtok 40 "," 19 16 53))] (mkPtok 3 "}" 19 17 54)) (mkPtok 40 "," 19 19 55)))] (mkPtok 3 "}" 20 0 56)))])).
-Eval vm_compute in ("<<<M51>>>" ++ check (runes_of_ascii "packet
-i8i8 {
-    char[]
-    string_
-// " ++ [27880; 37322]%N ++ runes_of_ascii "
-//
-`tab	here` //
-, @lengthOf(
-    T )
-    @lengthOf(
-uint8x)@rightPad ( '\x00' ) zchar[ 4294967296 // packet A { u8 x, }
-]	f32a @calculatedFrom(
-// " ++ [27880; 37322]%N ++ runes_of_ascii "
-//x
-""CRC32"")
-    `it's`	, } // @lengthOf(
-root // packet A { u8 x, }
-packet	A
-    { @rightPad
-//	t
-// packet A { u8 x, }
-( )
-    @calculatedFrom(""" ++ [233]%N ++ runes_of_ascii "t" ++ [233]%N ++ runes_of_ascii """ )	string T`crlf
-line`
-    ,
-    u64 falsey `two words`
-//x
-// trailing space 
-,zchar[ 65535	] lengthOf
-`doc` , match // `tick` ""quote"" 'q'
-crc
-as int { [ ""packet"",
-    ""it's""
-    ]
-: body ,007
-:
-    // a // b
-    leftPad
-,	""{,}"" :
-    Z9_, [ 0123456789
-    , 00
-    , ""a\\"" // " ++ [128512]%N ++ runes_of_ascii " emoji
-, """ ++ [128512]%N ++ runes_of_ascii """  , ""\" ++ [233]%N ++ runes_of_ascii """
-    , ""`tick`"", ""it's"",
-    """ ++ [233]%N ++ runes_of_ascii "t" ++ [233]%N ++ runes_of_ascii """]
-: x_y_z,} // c
-,}
-")).
-Eval vm_compute in ("<<<M61>>>" ++ check (runes_of_ascii "// packet A { u8 x, }
-")).
-Eval vm_compute in ("<<<M71>>>" ++ check (runes_of_ascii "options { o =""x y""
-//x
-// trailing space 
-; float
-    = ""\n"" metadata
-// " ++ [128512]%N ++ runes_of_ascii " emoji
-// `tick` ""quote"" 'q'
-=
-    """ ++ [128512]%N ++ runes_of_ascii """;Logon
-//
-//	t
-=
-true
-; i8i8  = string// @lengthOf(
-}")).
-Eval vm_compute in ("<<<M81>>>" ++ check (runes_of_ascii "root packet Foo {i16 BodyLength `// not a comment`
-    // c
-    ,
-    //x
-    }options { // packet A { u8 x, }
-} options
-    {Z9_ = // trailing space 
-false msg_type //
-=
-true f32a = ' ' zchar  =""`tick`"";}
-")).
-Eval vm_compute in ("<<<M91>>>" ++ check (runes_of_ascii "packet Logon{
-    repeat string
-a1 `crlf
-line` ,@lengthOf(
-Pad
-    ) match  Pad as
-u8x
-    { 4294967296
-//
-// " ++ [128512]%N ++ runes_of_ascii " emoji
-: // `tick` ""quote"" 'q'
-i8i8 , } ,
-asx a1 ,
-// a // b
-// @lengthOf(
-@lengthOf(body ) //x
-msg_type int
-,tag`line1
-line2` , repeat
-// packet A { u8 x, }
-// packet A { u8 x, }
-Z9_{ u16
-    packetx	@calculatedFrom(
-    ""it's"" ) , } , @lengthOf(
-// " ++ [128512]%N ++ runes_of_ascii " emoji
-//	t
-Logon ) // " ++ [128512]%N ++ runes_of_ascii " emoji
-@rightPad (
-)	@calculatedFrom(""" ++ [233]%N ++ runes_of_ascii "t" ++ [233]%N ++ runes_of_ascii """ ) repeat roots	u128 // `tick` ""quote"" 'q'
-,@calculatedFrom( ""{,}"") chars{ match // " ++ [128512]%N ++ runes_of_ascii " emoji
-roots as Foo {
-    10 :trueish
-// trailing space 
-// @lengthOf(
-, },} , i8i8 ,@calculatedFrom( ""x y"" ) @calculatedFrom( ""a\""b"" ) repeat Z9_
-{  f32a msg_type ,
-repeat o{
-// " ++ [128512]%N ++ runes_of_ascii " emoji
-// @lengthOf(
-zchar[ 0	]
-charz @calculatedFrom(""CRC32"" ) ,
-}
-,}
-    ,
-} root
-    packet	BodyLength
-{ calculatedFrom
-{
-char[]x@calculatedFrom(
-""\n""
-)
-    , // @lengthOf(
-_x @calculatedFrom( ""`tick`""
-    ),	repeat u128,float Packet
-`" ++ [28040; 24687; 31867; 22411]%N ++ runes_of_ascii "`
-    ,}
-    , repeat Foo	{ uint64 a1
-    // `tick` ""quote"" 'q'
-    , } , /// triple
-repeat char[ 42 ] matchKey `it's` ,	lengthOf{ // " ++ [27880; 37322]%N ++ runes_of_ascii "
-u128 trueish  `// not a comment`, match
-chars as MetaDataX {
-00
-    : x_y_z 1
-: trueish, [ 0123456789 ]
-    :	calculatedFrom , [
-    ""CRC32"" ,	""\" ++ [233]%N ++ runes_of_ascii """
-, ""// no comment""
-    , ""it's"" ,	""packet""
-    , 007 ] : Pad
-,
-} ,  } /// triple
-, repeat char[] Logon // `tick` ""quote"" 'q'
-, @leftPad
-    ( '0' //x
-) f32
-    Pad
-    @calculatedFrom(""CRC32"" ) , @lengthOf(
-BodyLength )  options1 @calculatedFrom( ""`tick`"") , A {
-// " ++ [27880; 37322]%N ++ runes_of_ascii "
-//	t
-uint8 charz`u8 x,`
-, falsey x
-`line1
-line2`  , repeat
-    int8 Packet
-    ,zchar[ 1 ] float
-    , }
-, char[ 65535 ] matchKey
-@calculatedFrom( //
-""x y""
-    ) // trailing space 
-, @lengthOf( o//x
-)match	chars
-    as As {	1
-    : f32a
-,
-} , }
-packet
-//	t
-// packet A { u8 x, }
-int
-{ @calculatedFrom( // trailing space 
-""// no comment"" ) @rightPad ( ) @calculatedFrom( """ ++ [233]%N ++ runes_of_ascii "t" ++ [233]%N ++ runes_of_ascii """ ) roots _x
-/// triple
-// trailing space 
-`say ""hi""`	, // `tick` ""quote"" 'q'
-} options { o= ""{,}"" Pad =
-    255 ;  } // " ++ [27880; 37322]%N)).
-Eval vm_compute in ("<<<M101>>>" ++ check (runes_of_ascii "options // " ++ [27880; 37322]%N ++ runes_of_ascii "
-{
-// packet A { u8 x, }
-// a // b
-}
-    packet T {
-    }
-")).
-Eval vm_compute in ("<<<M111>>>" ++ check (runes_of_ascii "
-packet a1{ match /// triple
-T as pack
-{007 : Header ,} , calculatedFrom	, } MetaData
-options1
-    { }")).
-Eval vm_compute in ("<<<T111>>>" ++ terms [mkTok 35 "packet" 2 0 false; mkTok 42 "a1" 2 7 false; mkTok 2 "{" 2 9 false; mkTok 38 "match" 2 11 false; mkTok 44 "/// triple" 2 17 true; mkTok 42 "T" 3 0 false; mkTok 17 "as" 3 2 false; mkTok 42 "pack" 3 5 false; mkTok 2 "{" 4 0 false; mkTok 30 "007" 4 1 false; mkTok 39 ":" 4 5 false; mkTok 42 "Header" 4 7 false; mkTok 40 "," 4 14 false; mkTok 3 "}" 4 15 false; mkTok 40 "," 4 17 false; mkTok 42 "calculatedFrom" 4 19 false; mkTok 40 "," 4 34 false; mkTok 3 "}" 4 36 false; mkTok 37 "MetaData" 4 38 false; mkTok 42 "options1" 5 0 false; mkTok 2 "{" 6 4 false; mkTok 3 "}" 6 6 false; mkTok 0 "<EOF>" 6 7 false] (mkPacket (mkPtok 35 "packet" 2 0 0) (Some (mkPtok 3 "}" 6 6 21)) [(DPacket (mkPacketDef (mkSpan (mkPtok 35 "packet" 2 0 0) (mkPtok 3 "}" 4 36 17)) None (mkPtok 35 "packet" 2 0 0) (mkPtok 42 "a1" 2 7 1) (mkPtok 2 "{" 2 9 2) [(mkFieldWithAttr (mkSpan (mkPtok 38 "match" 2 11 3) (mkPtok 40 "," 4 17 14)) [] (MatchField (mkSpan (mkPtok 38 "match" 2 11 3) (mkPtok 40 "," 4 17 14)) (mkMatchFieldDecl (mkSpan (mkPtok 38 "match" 2 11 3) (mkPtok 3 "}" 4 15 13)) (mkPtok 38 "match" 2 11 3) (mkPtok 42 "T" 3 0 5) (mkPtok 17 "as" 3 2 6) (mkPtok 42 "pack" 3 5 7) (mkPtok 2 "{" 4 0 8) [(mkMatchPair (mkSpan (mkPtok 30 "007" 4 1 9) (mkPtok 40 "," 4 14 12)) (MKDigits (mkPtok 30 "007" 4 1 9)) (mkPtok 39 ":" 4 5 10) (mkPtok 42 "Header" 4 7 11) (Some (mkPtok 40 "," 4 14 12)))] (mkPtok 3 "}" 4 15 13)) (mkPtok 40 "," 4 17 14))); (mkFieldWithAttr (mkSpan (mkPtok 42 "calculatedFrom" 4 19 15) (mkPtok 40 "," 4 34 16)) [] (ObjectField (mkSpan (mkPtok 42 "calculatedFrom" 4 19 15) (mkPtok 40 "," 4 34 16)) None (mkPtok 42 "calculatedFrom" 4 19 15) None None (mkPtok 40 "," 4 34 16)))] (mkPtok 3 "}" 4 36 17))); (DMeta (mkMetaDef (mkSpan (mkPtok 37 "MetaData" 4 38 18) (mkPtok 3 "}" 6 6 21)) (mkPtok 37 "MetaData" 4 38 18) (mkPtok 42 "options1" 5 0 19) (mkPtok 2 "{" 6 4 20) [] (mkPtok 3 "}" 6 6 21)))])).
-Eval vm_compute in ("<<<M121>>>" ++ check (runes_of_ascii "packet string_ { trueish
-{options1 @lengthOf( Z9_ ) `// not a comment` , // c
-_x
-    //	t
-    @lengthOf( u128), /// triple
-match packetx as charz{[
-1 , 3 ,
-""a\\"" //x
-,10 ] : lengthOf ,
-""" ++ [28040; 24687]%N ++ runes_of_ascii """
-:float	""CRC32"" : // a // b
-calculatedFrom
-, """ ++ [128512]%N ++ runes_of_ascii """ : tag , 00
-:
-rootA, }
-    ,} ,}")).
-Eval vm_compute in ("<<<M131>>>" ++ check (runes_of_ascii "root packet pack { @calculatedFrom(	""`tick`"")
-    @calculatedFrom(
-    // " ++ [128512]%N ++ runes_of_ascii " emoji
-    ""\n"" ) @tag( 0123456789 )match zchar as string_ {	[ ""packet"" ] //
-:  i8i8 , [
-0123456789 , 7	] :string_ ,
-//x
-// `tick` ""quote"" 'q'
-0 : options1 ,
-""\" ++ [233]%N ++ runes_of_ascii """
-:// `tick` ""quote"" 'q'
-Foo	,}
-, @lengthOf(	calculatedFrom )
-Foo	@lengthOf(
-    x)
-`crlf
-line`
-, lengthOf @lengthOf(int )  ,T , @lengthOf(  rootA) zchar[
-007 ]
-// " ++ [128512]%N ++ runes_of_ascii " emoji
-// packet A { u8 x, }
-x`crlf
-line` , @calculatedFrom(
-    ""\n""	) repeat f64	chars
-, matchKey _x, }")).
-Eval vm_compute in ("<<<M141>>>" ++ check (runes_of_ascii "MetaData pack { f64 A `{ , }` ,}
-
-")).
-Eval vm_compute in ("<<<M151>>>" ++ check (runes_of_ascii "root //	t
-packet
-BodyLength { zchar[ 10
-]
-u128
-    ,
-uint8 zchar ``
-    , repeat falsey ,float64 chars@calculatedFrom( """ ++ [128512]%N ++ runes_of_ascii """
-) , char[]matchKey, repeat //x
-uint16 matchKey ,
-@calculatedFrom( ""CRC32"" ) char[ 3 ] u `" ++ [28040; 24687; 31867; 22411]%N ++ runes_of_ascii "` , @leftPad ( '0'
-    //	t
-    ) u64  charz @calculatedFrom(""" ++ [128512]%N ++ runes_of_ascii """), }
-root packet chars //
-{} MetaData Z9_{ zchar[ 255 ] _x,int32 f32a , int8
-asx `` ,
-o
-packetx // `tick` ""quote"" 'q'
-, }
-    options
-// trailing space 
-// c
-{	A
-=
-4294967296
-//
-// packet A { u8 x, }
-;
-Foo = ""x y"" ;Foo =  ' ' } //	t")).
-Eval vm_compute in ("<<<M161>>>" ++ check (runes_of_ascii "options { } packet
-    //	t
-    falsey /// triple
-{	i64 calculatedFrom
-    @calculatedFrom(
-    //
-    ""a\\"" )
-`it's` ,
-char[ 00 ] falsey ,	@calculatedFrom(""1"" ) @calculatedFrom( ""{,}""
-    )
-i32	float	,@tag(3 //
-)
-    @calculatedFrom(  ""CRC32"" ) int64 options1 @lengthOf(roots ) `two words` , @calculatedFrom(""a\\""	) repeat trueish { repeat charz
-,trueish // trailing space 
-tag //x
-`two words` ,
-repeat u64 Logon  `" ++ [28040; 24687; 31867; 22411]%N ++ runes_of_ascii "`,},
-    @leftPad(
-    //x
-    '0'
-)// " ++ [128512]%N ++ runes_of_ascii " emoji
-@rightPad (
-// " ++ [128512]%N ++ runes_of_ascii " emoji
-//
-' ' )
-//	t
-//
-u roots,repeat
-A	{i32 int
-@lengthOf( zchar
-)`" ++ [233]%N ++ runes_of_ascii "`
-    ,
-    }//	t
-, u64 A , @tag( 10 ) char[]
-u8x, zchar[
-10 ] pack
-//
-// " ++ [27880; 37322]%N ++ runes_of_ascii "
-@calculatedFrom(""1"" ) `say ""hi""` ,	} packet Z9_//	t
-{// " ++ [27880; 37322]%N ++ runes_of_ascii "
-@leftPad( '0')  repeat
-// a // b
-// @lengthOf(
-As charz
-, body @calculatedFrom( ""it's""
-    )`crlf
-line` ,
-    // " ++ [27880; 37322]%N ++ runes_of_ascii "
-    @leftPad ('0'
-) zchar[ 4294967296 ]
-A @calculatedFrom(""packet""
-    // trailing space 
-    ) `" ++ [233]%N ++ runes_of_ascii "`  , repeat body
-    Header`" ++ [233]%N ++ runes_of_ascii "`,}
-")).
-Eval vm_compute in ("<<<M171>>>" ++ check (runes_of_ascii "MetaData
-Packet {
-    float	Pad ,u32 // " ++ [128512]%N ++ runes_of_ascii " emoji
-Foo `it's`
-    ,uint16 stringy
-    , } packet
-    stringy // @lengthOf(
-{ @lengthOf(
-    chars
-) repeat f32 pack ,  @lengthOf(
-rootA
-)
+string_ { char[// packet A { u8 x, }
+65535]// a // b
+asx  @calculatedFrom(  ""{,}"")// c
+,uint8x @calculatedFrom( // `tick` ""quote"" 'q'
+""" ++ [233]%N ++ runes_of_ascii "t" ++ [233]%N ++ runes_of_ascii """ ) , string
+repeatCount @calculatedFrom(	""abc""
+) `crlf
+line`,  @calculatedFrom(
     // @lengthOf(
-    @calculatedFrom( ""CRC32""  ) char[] MetaDataX
-    // a // b
-    `" ++ [28040; 24687; 31867; 22411]%N ++ runes_of_ascii "` , @tag( 4294967296
-    ) len	@calculatedFrom(""a	b"")
-,
-} packet
-stringy { f32 leftPad/// triple
-,
-stringy { int	@calculatedFrom(""1"" ) `" ++ [233]%N ++ runes_of_ascii "`,	char[] o, zchar[ 0123456789  ]
-    matchKey @lengthOf(	lengthOf )
-`two words`
-, }
-,
-@leftPad ('\x00'
-) @lengthOf(
-// " ++ [128512]%N ++ runes_of_ascii " emoji
-/// triple
-falsey) repeat string falsey
-    `// not a comment` // trailing space 
-, //	t
-string Pad
-    , }
-
-")).
-Eval vm_compute in ("<<<M181>>>" ++ check (runes_of_ascii "root
-packet charz {// a // b
-@rightPad
-    //	t
-    (
-) @lengthOf(
-    Pad ) @rightPad ( ' '
-) MetaDataX @lengthOf( BodyLength
-) `" ++ [28040; 24687; 31867; 22411]%N ++ runes_of_ascii "`
-,
-    repeatCount /// triple
-A
-`
-`,	@tag(
-    4294967296) // trailing space 
-metadata u8x ,
-    @calculatedFrom( ""packet"" ) repeat Pad // @lengthOf(
-`say ""hi""`
-,  } root packet// trailing space 
-rootA {// " ++ [27880; 37322]%N ++ runes_of_ascii "
-rootA	{ string trueish ,
-}
-    ,
-} MetaData
-lengthOf {
-    } packet _x { repeat msg_type { char[ 65535 ]
-crc ,	lengthOf
-    {
-    Packet ,
-    // c
-    string_
-    @calculatedFrom(""a\""b""),
-f32 rootA//
-,
-}	,
-// " ++ [27880; 37322]%N ++ runes_of_ascii "
-// `tick` ""quote"" 'q'
-} ,i16 int  , @lengthOf( matchKey) //	t
-i8i8 int `two words` ,
-// packet A { u8 x, }
+    ""a\\"")	repeat // " ++ [27880; 37322]%N ++ runes_of_ascii "
+char[ 1] matchKey //	t
+`two words`,	} packet Z9_
+{
 // @lengthOf(
-repeat Logon{
-repeat
-    //	t
-    uint8	f32a ,
-    a1
+// c
+@tag( 42 )
     //
-    { repeat char[1
-] Foo , }  , uint8x
-// @lengthOf(
-// packet A { u8 x, }
-{ char[ 4294967296 ]
-T `{ , }`
-, u32
-    repeatCount `" ++ [28040; 24687; 31867; 22411]%N ++ runes_of_ascii "`
-    // c
-    ,} , }
-    ,
-repeat MetaDataX
-, char[ 4294967296 ] i8i8//
-@lengthOf( _x ) ,}
-packet falsey {
-    tag
-{ char[ // " ++ [27880; 37322]%N ++ runes_of_ascii "
-00
-    // `tick` ""quote"" 'q'
-    ] int@lengthOf( u128
-    ) ,
-}
-,roots body ,u16 stringy
-// trailing space 
-// @lengthOf(
-@lengthOf( Pad ) `line1
-line2` ,
-stringy
-@lengthOf(  chars ) ,uint8 lengthOf
-`" ++ [233]%N ++ runes_of_ascii "` ,
-    // " ++ [128512]%N ++ runes_of_ascii " emoji
-    }")).
-Eval vm_compute in ("<<<T181>>>" ++ terms [mkTok 34 "root" 1 0 false; mkTok 35 "packet" 2 0 false; mkTok 42 "charz" 2 7 false; mkTok 2 "{" 2 13 false; mkTok 44 "// a // b" 2 14 true; mkTok 32 "@rightPad" 3 0 false; mkTok 44 (string_of_bytes [47; 47; 9; 116]%N) 4 4 true; mkTok 8 "(" 5 4 false; mkTok 6 ")" 6 0 false; mkTok 7 "@lengthOf(" 6 2 false; mkTok 42 "Pad" 7 4 false; mkTok 6 ")" 7 8 false; mkTok 32 "@rightPad" 7 10 false; mkTok 8 "(" 7 20 false; mkTok 33 "' '" 7 22 false; mkTok 6 ")" 8 0 false; mkTok 42 "MetaDataX" 8 2 false; mkTok 7 "@lengthOf(" 8 12 false; mkTok 42 "BodyLength" 8 23 false; mkTok 6 ")" 9 0 false; mkTok 43 (string_of_bytes [96; 230; 182; 136; 230; 129; 175; 231; 177; 187; 229; 158; 139; 96]%N) 9 2 false; mkTok 40 "," 10 0 false; mkTok 42 "repeatCount" 11 4 false; mkTok 44 "/// triple" 11 16 true; mkTok 42 "A" 12 0 false; mkTok 43 (string_of_bytes [96; 10; 96]%N) 13 0 false; mkTok 40 "," 14 1 false; mkTok 9 "@tag(" 14 3 false; mkTok 30 "4294967296" 15 4 false; mkTok 6 ")" 15 14 false; mkTok 44 "// trailing space " 15 16 true; mkTok 42 "metadata" 16 0 false; mkTok 42 "u8x" 16 9 false; mkTok 40 "," 16 13 false; mkTok 5 "@calculatedFrom(" 17 4 false; mkTok 31 """packet""" 17 21 false; mkTok 6 ")" 17 30 false; mkTok 36 "repeat" 17 32 false; mkTok 42 "Pad" 17 39 false; mkTok 44 "// @lengthOf(" 17 43 true; mkTok 43 "`say ""hi""`" 18 0 false; mkTok 40 "," 19 0 false; mkTok 3 "}" 19 3 false; mkTok 34 "root" 19 5 false; mkTok 35 "packet" 19 10 false; mkTok 44 "// trailing space " 19 16 true; mkTok 42 "rootA" 20 0 false; mkTok 2 "{" 20 6 false; mkTok 44 (string_of_bytes [47; 47; 32; 230; 179; 168; 233; 135; 138]%N) 20 7 true; mkTok 42 "rootA" 21 0 false; mkTok 2 "{" 21 6 false; mkTok 15 "string" 21 8 false; mkTok 42 "trueish" 21 15 false; mkTok 40 "," 21 23 false; mkTok 3 "}" 22 0 false; mkTok 40 "," 23 4 false; mkTok 3 "}" 24 0 false; mkTok 37 "MetaData" 24 2 false; mkTok 42 "lengthOf" 25 0 false; mkTok 2 "{" 25 9 false; mkTok 3 "}" 26 4 false; mkTok 35 "packet" 26 6 false; mkTok 42 "_x" 26 13 false; mkTok 2 "{" 26 16 false; mkTok 36 "repeat" 26 18 false; mkTok 42 "msg_type" 26 25 false; mkTok 2 "{" 26 34 false; mkTok 12 "char[" 26 36 false; mkTok 30 "65535" 26 42 false; mkTok 13 "]" 26 48 false; mkTok 42 "crc" 27 0 false; mkTok 40 "," 27 4 false; mkTok 42 "lengthOf" 27 6 false; mkTok 2 "{" 28 4 false; mkTok 42 "Packet" 29 4 false; mkTok 40 "," 29 11 false; mkTok 44 "// c" 30 4 true; mkTok 42 "string_" 31 4 false; mkTok 5 "@calculatedFrom(" 32 4 false; mkTok 31 """a\""b""" 32 20 false; mkTok 6 ")" 32 26 false; mkTok 40 "," 32 27 false; mkTok 28 "f32" 33 0 false; mkTok 42 "rootA" 33 4 false; mkTok 44 "//" 33 9 true; mkTok 40 "," 34 0 false; mkTok 3 "}" 35 0 false; mkTok 40 "," 35 2 false; mkTok 44 (string_of_bytes [47; 47; 32; 230; 179; 168; 233; 135; 138]%N) 36 0 true; mkTok 44 "// `tick` ""quote"" 'q'" 37 0 true; mkTok 3 "}" 38 0 false; mkTok 40 "," 38 2 false; mkTok 25 "i16" 38 3 false; mkTok 42 "int" 38 7 false; mkTok 40 "," 38 12 false; mkTok 7 "@lengthOf(" 38 14 false; mkTok 42 "matchKey" 38 25 false; mkTok 6 ")" 38 33 false; mkTok 44 (string_of_bytes [47; 47; 9; 116]%N) 38 35 true; mkTok 42 "i8i8" 39 0 false; mkTok 42 "int" 39 5 false; mkTok 43 "`two words`" 39 9 false; mkTok 40 "," 39 21 false; mkTok 44 "// packet A { u8 x, }" 40 0 true; mkTok 44 "// @lengthOf(" 41 0 true; mkTok 36 "repeat" 42 0 false; mkTok 42 "Logon" 42 7 false; mkTok 2 "{" 42 12 false; mkTok 36 "repeat" 43 0 false; mkTok 44 (string_of_bytes [47; 47; 9; 116]%N) 44 4 true; mkTok 20 "uint8" 45 4 false; mkTok 42 "f32a" 45 10 false; mkTok 40 "," 45 15 false; mkTok 42 "a1" 46 4 false; mkTok 44 "//" 47 4 true; mkTok 2 "{" 48 4 false; mkTok 36 "repeat" 48 6 false; mkTok 12 "char[" 48 13 false; mkTok 30 "1" 48 18 false; mkTok 13 "]" 49 0 false; mkTok 42 "Foo" 49 2 false; mkTok 40 "," 49 6 false; mkTok 3 "}" 49 8 false; mkTok 40 "," 49 11 false; mkTok 42 "uint8x" 49 13 false; mkTok 44 "// @lengthOf(" 50 0 true; mkTok 44 "// packet A { u8 x, }" 51 0 true; mkTok 2 "{" 52 0 false; mkTok 12 "char[" 52 2 false; mkTok 30 "4294967296" 52 8 false; mkTok 13 "]" 52 19 false; mkTok 42 "T" 53 0 false; mkTok 43 "`{ , }`" 53 2 false; mkTok 40 "," 54 0 false; mkTok 22 "u32" 54 2 false; mkTok 42 "repeatCount" 55 4 false; mkTok 43 (string_of_bytes [96; 230; 182; 136; 230; 129; 175; 231; 177; 187; 229; 158; 139; 96]%N) 55 16 false; mkTok 44 "// c" 56 4 true; mkTok 40 "," 57 4 false; mkTok 3 "}" 57 5 false; mkTok 40 "," 57 7 false; mkTok 3 "}" 57 9 false; mkTok 40 "," 58 4 false; mkTok 36 "repeat" 59 0 false; mkTok 42 "MetaDataX" 59 7 false; mkTok 40 "," 60 0 false; mkTok 12 "char[" 60 2 false; mkTok 30 "4294967296" 60 8 false; mkTok 13 "]" 60 19 false; mkTok 42 "i8i8" 60 21 false; mkTok 44 "//" 60 25 true; mkTok 7 "@lengthOf(" 61 0 false; mkTok 42 "_x" 61 11 false; mkTok 6 ")" 61 14 false; mkTok 40 "," 61 16 false; mkTok 3 "}" 61 17 false; mkTok 35 "packet" 62 0 false; mkTok 42 "falsey" 62 7 false; mkTok 2 "{" 62 14 false; mkTok 42 "tag" 63 4 false; mkTok 2 "{" 64 0 false; mkTok 12 "char[" 64 2 false; mkTok 44 (string_of_bytes [47; 47; 32; 230; 179; 168; 233; 135; 138]%N) 64 8 true; mkTok 30 "00" 65 0 false; mkTok 44 "// `tick` ""quote"" 'q'" 66 4 true; mkTok 13 "]" 67 4 false; mkTok 42 "int" 67 6 false; mkTok 7 "@lengthOf(" 67 9 false; mkTok 42 "u128" 67 20 false; mkTok 6 ")" 68 4 false; mkTok 40 "," 68 6 false; mkTok 3 "}" 69 0 false; mkTok 40 "," 70 0 false; mkTok 42 "roots" 70 1 false; mkTok 42 "body" 70 7 false; mkTok 40 "," 70 12 false; mkTok 21 "u16" 70 13 false; mkTok 42 "stringy" 70 17 false; mkTok 44 "// trailing space " 71 0 true; mkTok 44 "// @lengthOf(" 72 0 true; mkTok 7 "@lengthOf(" 73 0 false; mkTok 42 "Pad" 73 11 false; mkTok 6 ")" 73 15 false; mkTok 43 (string_of_bytes [96; 108; 105; 110; 101; 49; 10; 108; 105; 110; 101; 50; 96]%N) 73 17 false; mkTok 40 "," 74 7 false; mkTok 42 "stringy" 75 0 false; mkTok 7 "@lengthOf(" 76 0 false; mkTok 42 "chars" 76 12 false; mkTok 6 ")" 76 18 false; mkTok 40 "," 76 20 false; mkTok 20 "uint8" 76 21 false; mkTok 42 "lengthOf" 76 27 false; mkTok 43 (string_of_bytes [96; 195; 169; 96]%N) 77 0 false; mkTok 40 "," 77 4 false; mkTok 44 (string_of_bytes [47; 47; 32; 240; 159; 152; 128; 32; 101; 109; 111; 106; 105]%N) 78 4 true; mkTok 3 "}" 79 4 false; mkTok 0 "<EOF>" 79 5 false] (mkPacket (mkPtok 34 "root" 1 0 0) (Some (mkPtok 3 "}" 79 4 195)) [(DPacket (mkPacketDef (mkSpan (mkPtok 34 "root" 1 0 0) (mkPtok 3 "}" 19 3 42)) (Some (mkPtok 34 "root" 1 0 0)) (mkPtok 35 "packet" 2 0 1) (mkPtok 42 "charz" 2 7 2) (mkPtok 2 "{" 2 13 3) [(mkFieldWithAttr (mkSpan (mkPtok 32 "@rightPad" 3 0 5) (mkPtok 40 "," 10 0 21)) [(FAPadding (mkSpan (mkPtok 32 "@rightPad" 3 0 5) (mkPtok 6 ")" 6 0 8)) (mkPaddingAttr (mkSpan (mkPtok 32 "@rightPad" 3 0 5) (mkPtok 6 ")" 6 0 8)) (mkPtok 32 "@rightPad" 3 0 5) (mkPtok 8 "(" 5 4 7) None (mkPtok 6 ")" 6 0 8))); (FALengthOf (mkSpan (mkPtok 7 "@lengthOf(" 6 2 9) (mkPtok 6 ")" 7 8 11)) (mkLengthOf (mkSpan (mkPtok 7 "@lengthOf(" 6 2 9) (mkPtok 6 ")" 7 8 11)) (mkPtok 7 "@lengthOf(" 6 2 9) (mkPtok 42 "Pad" 7 4 10) (mkPtok 6 ")" 7 8 11))); (FAPadding (mkSpan (mkPtok 32 "@rightPad" 7 10 12) (mkPtok 6 ")" 8 0 15)) (mkPaddingAttr (mkSpan (mkPtok 32 "@rightPad" 7 10 12) (mkPtok 6 ")" 8 0 15)) (mkPtok 32 "@rightPad" 7 10 12) (mkPtok 8 "(" 7 20 13) (Some (mkPtok 33 "' '" 7 22 14)) (mkPtok 6 ")" 8 0 15)))] (LengthField (mkSpan (mkPtok 42 "MetaDataX" 8 2 16) (mkPtok 40 "," 10 0 21)) (mkLengthFieldDecl (mkSpan (mkPtok 42 "MetaDataX" 8 2 16) (mkPtok 40 "," 10 0 21)) None (mkPtok 42 "MetaDataX" 8 2 16) (mkLengthOf (mkSpan (mkPtok 7 "@lengthOf(" 8 12 17) (mkPtok 6 ")" 9 0 19)) (mkPtok 7 "@lengthOf(" 8 12 17) (mkPtok 42 "BodyLength" 8 23 18) (mkPtok 6 ")" 9 0 19)) (Some (mkPtok 43 (string_of_bytes [96; 230; 182; 136; 230; 129; 175; 231; 177; 187; 229; 158; 139; 96]%N) 9 2 20)) (mkPtok 40 "," 10 0 21)))); (mkFieldWithAttr (mkSpan (mkPtok 42 "repeatCount" 11 4 22) (mkPtok 40 "," 14 1 26)) [] (ObjectField (mkSpan (mkPtok 42 "repeatCount" 11 4 22) (mkPtok 40 "," 14 1 26)) None (mkPtok 42 "repeatCount" 11 4 22) (Some (mkPtok 42 "A" 12 0 24)) (Some (mkPtok 43 (string_of_bytes [96; 10; 96]%N) 13 0 25)) (mkPtok 40 "," 14 1 26))); (mkFieldWithAttr (mkSpan (mkPtok 9 "@tag(" 14 3 27) (mkPtok 40 "," 16 13 33)) [(FATag (mkSpan (mkPtok 9 "@tag(" 14 3 27) (mkPtok 6 ")" 15 14 29)) (mkTagAttr (mkSpan (mkPtok 9 "@tag(" 14 3 27) (mkPtok 6 ")" 15 14 29)) (mkPtok 9 "@tag(" 14 3 27) (mkPtok 30 "4294967296" 15 4 28) (mkPtok 6 ")" 15 14 29)))] (ObjectField (mkSpan (mkPtok 42 "metadata" 16 0 31) (mkPtok 40 "," 16 13 33)) None (mkPtok 42 "metadata" 16 0 31) (Some (mkPtok 42 "u8x" 16 9 32)) None (mkPtok 40 "," 16 13 33))); (mkFieldWithAttr (mkSpan (mkPtok 5 "@calculatedFrom(" 17 4 34) (mkPtok 40 "," 19 0 41)) [(FACalculatedFrom (mkSpan (mkPtok 5 "@calculatedFrom(" 17 4 34) (mkPtok 6 ")" 17 30 36)) (mkCalculatedFrom (mkSpan (mkPtok 5 "@calculatedFrom(" 17 4 34) (mkPtok 6 ")" 17 30 36)) (mkPtok 5 "@calculatedFrom(" 17 4 34) (mkPtok 31 """packet""" 17 21 35) (mkPtok 6 ")" 17 30 36)))] (ObjectField (mkSpan (mkPtok 36 "repeat" 17 32 37) (mkPtok 40 "," 19 0 41)) (Some (mkPtok 36 "repeat" 17 32 37)) (mkPtok 42 "Pad" 17 39 38) None (Some (mkPtok 43 "`say ""hi""`" 18 0 40)) (mkPtok 40 "," 19 0 41)))] (mkPtok 3 "}" 19 3 42))); (DPacket (mkPacketDef (mkSpan (mkPtok 34 "root" 19 5 43) (mkPtok 3 "}" 24 0 56)) (Some (mkPtok 34 "root" 19 5 43)) (mkPtok 35 "packet" 19 10 44) (mkPtok 42 "rootA" 20 0 46) (mkPtok 2 "{" 20 6 47) [(mkFieldWithAttr (mkSpan (mkPtok 42 "rootA" 21 0 49) (mkPtok 40 "," 23 4 55)) [] (InerObjectField (mkSpan (mkPtok 42 "rootA" 21 0 49) (mkPtok 40 "," 23 4 55)) None (InerObjectDecl (mkSpan (mkPtok 42 "rootA" 21 0 49) (mkPtok 3 "}" 22 0 54)) (mkPtok 42 "rootA" 21 0 49) (mkPtok 2 "{" 21 6 50) [(MetaField (mkSpan (mkPtok 15 "string" 21 8 51) (mkPtok 40 "," 21 23 53)) None (mkMetaDecl (mkSpan (mkPtok 15 "string" 21 8 51) (mkPtok 40 "," 21 23 53)) (TyDynamic (mkSpan (mkPtok 15 "string" 21 8 51) (mkPtok 15 "string" 21 8 51)) (mkDynamicString (mkSpan (mkPtok 15 "string" 21 8 51) (mkPtok 15 "string" 21 8 51)) (mkPtok 15 "string" 21 8 51))) (mkPtok 42 "trueish" 21 15 52) None (mkPtok 40 "," 21 23 53)))] (mkPtok 3 "}" 22 0 54)) (mkPtok 40 "," 23 4 55)))] (mkPtok 3 "}" 24 0 56))); (DMeta (mkMetaDef (mkSpan (mkPtok 37 "MetaData" 24 2 57) (mkPtok 3 "}" 26 4 60)) (mkPtok 37 "MetaData" 24 2 57) (mkPtok 42 "lengthOf" 25 0 58) (mkPtok 2 "{" 25 9 59) [] (mkPtok 3 "}" 26 4 60))); (DPacket (mkPacketDef (mkSpan (mkPtok 35 "packet" 26 6 61) (mkPtok 3 "}" 61 17 155)) None (mkPtok 35 "packet" 26 6 61) (mkPtok 42 "_x" 26 13 62) (mkPtok 2 "{" 26 16 63) [(mkFieldWithAttr (mkSpan (mkPtok 36 "repeat" 26 18 64) (mkPtok 40 "," 38 2 91)) [] (InerObjectField (mkSpan (mkPtok 36 "repeat" 26 18 64) (mkPtok 40 "," 38 2 91)) (Some (mkPtok 36 "repeat" 26 18 64)) (InerObjectDecl (mkSpan (mkPtok 42 "msg_type" 26 25 65) (mkPtok 3 "}" 38 0 90)) (mkPtok 42 "msg_type" 26 25 65) (mkPtok 2 "{" 26 34 66) [(MetaField (mkSpan (mkPtok 12 "char[" 26 36 67) (mkPtok 40 "," 27 4 71)) None (mkMetaDecl (mkSpan (mkPtok 12 "char[" 26 36 67) (mkPtok 40 "," 27 4 71)) (TyFixed (mkSpan (mkPtok 12 "char[" 26 36 67) (mkPtok 13 "]" 26 48 69)) (mkFixedString (mkSpan (mkPtok 12 "char[" 26 36 67) (mkPtok 13 "]" 26 48 69)) (mkPtok 12 "char[" 26 36 67) (mkPtok 30 "65535" 26 42 68) (mkPtok 13 "]" 26 48 69))) (mkPtok 42 "crc" 27 0 70) None (mkPtok 40 "," 27 4 71))); (InerObjectField (mkSpan (mkPtok 42 "lengthOf" 27 6 72) (mkPtok 40 "," 35 2 87)) None (InerObjectDecl (mkSpan (mkPtok 42 "lengthOf" 27 6 72) (mkPtok 3 "}" 35 0 86)) (mkPtok 42 "lengthOf" 27 6 72) (mkPtok 2 "{" 28 4 73) [(ObjectField (mkSpan (mkPtok 42 "Packet" 29 4 74) (mkPtok 40 "," 29 11 75)) None (mkPtok 42 "Packet" 29 4 74) None None (mkPtok 40 "," 29 11 75)); (CheckSumField (mkSpan (mkPtok 42 "string_" 31 4 77) (mkPtok 40 "," 32 27 81)) (mkChecksumFieldDecl (mkSpan (mkPtok 42 "string_" 31 4 77) (mkPtok 40 "," 32 27 81)) None (mkPtok 42 "string_" 31 4 77) (mkCalculatedFrom (mkSpan (mkPtok 5 "@calculatedFrom(" 32 4 78) (mkPtok 6 ")" 32 26 80)) (mkPtok 5 "@calculatedFrom(" 32 4 78) (mkPtok 31 """a\""b""" 32 20 79) (mkPtok 6 ")" 32 26 80)) None (mkPtok 40 "," 32 27 81))); (MetaField (mkSpan (mkPtok 28 "f32" 33 0 82) (mkPtok 40 "," 34 0 85)) None (mkMetaDecl (mkSpan (mkPtok 28 "f32" 33 0 82) (mkPtok 40 "," 34 0 85)) (TyBasic (mkSpan (mkPtok 28 "f32" 33 0 82) (mkPtok 28 "f32" 33 0 82)) (mkBasicType (mkSpan (mkPtok 28 "f32" 33 0 82) (mkPtok 28 "f32" 33 0 82)) (mkPtok 28 "f32" 33 0 82))) (mkPtok 42 "rootA" 33 4 83) None (mkPtok 40 "," 34 0 85)))] (mkPtok 3 "}" 35 0 86)) (mkPtok 40 "," 35 2 87))] (mkPtok 3 "}" 38 0 90)) (mkPtok 40 "," 38 2 91))); (mkFieldWithAttr (mkSpan (mkPtok 25 "i16" 38 3 92) (mkPtok 40 "," 38 12 94)) [] (MetaField (mkSpan (mkPtok 25 "i16" 38 3 92) (mkPtok 40 "," 38 12 94)) None (mkMetaDecl (mkSpan (mkPtok 25 "i16" 38 3 92) (mkPtok 40 "," 38 12 94)) (TyBasic (mkSpan (mkPtok 25 "i16" 38 3 92) (mkPtok 25 "i16" 38 3 92)) (mkBasicType (mkSpan (mkPtok 25 "i16" 38 3 92) (mkPtok 25 "i16" 38 3 92)) (mkPtok 25 "i16" 38 3 92))) (mkPtok 42 "int" 38 7 93) None (mkPtok 40 "," 38 12 94)))); (mkFieldWithAttr (mkSpan (mkPtok 7 "@lengthOf(" 38 14 95) (mkPtok 40 "," 39 21 102)) [(FALengthOf (mkSpan (mkPtok 7 "@lengthOf(" 38 14 95) (mkPtok 6 ")" 38 33 97)) (mkLengthOf (mkSpan (mkPtok 7 "@lengthOf(" 38 14 95) (mkPtok 6 ")" 38 33 97)) (mkPtok 7 "@lengthOf(" 38 14 95) (mkPtok 42 "matchKey" 38 25 96) (mkPtok 6 ")" 38 33 97)))] (ObjectField (mkSpan (mkPtok 42 "i8i8" 39 0 99) (mkPtok 40 "," 39 21 102)) None (mkPtok 42 "i8i8" 39 0 99) (Some (mkPtok 42 "int" 39 5 100)) (Some (mkPtok 43 "`two words`" 39 9 101)) (mkPtok 40 "," 39 21 102))); (mkFieldWithAttr (mkSpan (mkPtok 36 "repeat" 42 0 105) (mkPtok 40 "," 58 4 142)) [] (InerObjectField (mkSpan (mkPtok 36 "repeat" 42 0 105) (mkPtok 40 "," 58 4 142)) (Some (mkPtok 36 "repeat" 42 0 105)) (InerObjectDecl (mkSpan (mkPtok 42 "Logon" 42 7 106) (mkPtok 3 "}" 57 9 141)) (mkPtok 42 "Logon" 42 7 106) (mkPtok 2 "{" 42 12 107) [(MetaField (mkSpan (mkPtok 36 "repeat" 43 0 108) (mkPtok 40 "," 45 15 112)) (Some (mkPtok 36 "repeat" 43 0 108)) (mkMetaDecl (mkSpan (mkPtok 20 "uint8" 45 4 110) (mkPtok 40 "," 45 15 112)) (TyBasic (mkSpan (mkPtok 20 "uint8" 45 4 110) (mkPtok 20 "uint8" 45 4 110)) (mkBasicType (mkSpan (mkPtok 20 "uint8" 45 4 110) (mkPtok 20 "uint8" 45 4 110)) (mkPtok 20 "uint8" 45 4 110))) (mkPtok 42 "f32a" 45 10 111) None (mkPtok 40 "," 45 15 112))); (InerObjectField (mkSpan (mkPtok 42 "a1" 46 4 113) (mkPtok 40 "," 49 11 123)) None (InerObjectDecl (mkSpan (mkPtok 42 "a1" 46 4 113) (mkPtok 3 "}" 49 8 122)) (mkPtok 42 "a1" 46 4 113) (mkPtok 2 "{" 48 4 115) [(MetaField (mkSpan (mkPtok 36 "repeat" 48 6 116) (mkPtok 40 "," 49 6 121)) (Some (mkPtok 36 "repeat" 48 6 116)) (mkMetaDecl (mkSpan (mkPtok 12 "char[" 48 13 117) (mkPtok 40 "," 49 6 121)) (TyFixed (mkSpan (mkPtok 12 "char[" 48 13 117) (mkPtok 13 "]" 49 0 119)) (mkFixedString (mkSpan (mkPtok 12 "char[" 48 13 117) (mkPtok 13 "]" 49 0 119)) (mkPtok 12 "char[" 48 13 117) (mkPtok 30 "1" 48 18 118) (mkPtok 13 "]" 49 0 119))) (mkPtok 42 "Foo" 49 2 120) None (mkPtok 40 "," 49 6 121)))] (mkPtok 3 "}" 49 8 122)) (mkPtok 40 "," 49 11 123)); (InerObjectField (mkSpan (mkPtok 42 "uint8x" 49 13 124) (mkPtok 40 "," 57 7 140)) None (InerObjectDecl (mkSpan (mkPtok 42 "uint8x" 49 13 124) (mkPtok 3 "}" 57 5 139)) (mkPtok 42 "uint8x" 49 13 124) (mkPtok 2 "{" 52 0 127) [(MetaField (mkSpan (mkPtok 12 "char[" 52 2 128) (mkPtok 40 "," 54 0 133)) None (mkMetaDecl (mkSpan (mkPtok 12 "char[" 52 2 128) (mkPtok 40 "," 54 0 133)) (TyFixed (mkSpan (mkPtok 12 "char[" 52 2 128) (mkPtok 13 "]" 52 19 130)) (mkFixedString (mkSpan (mkPtok 12 "char[" 52 2 128) (mkPtok 13 "]" 52 19 130)) (mkPtok 12 "char[" 52 2 128) (mkPtok 30 "4294967296" 52 8 129) (mkPtok 13 "]" 52 19 130))) (mkPtok 42 "T" 53 0 131) (Some (mkPtok 43 "`{ , }`" 53 2 132)) (mkPtok 40 "," 54 0 133))); (MetaField (mkSpan (mkPtok 22 "u32" 54 2 134) (mkPtok 40 "," 57 4 138)) None (mkMetaDecl (mkSpan (mkPtok 22 "u32" 54 2 134) (mkPtok 40 "," 57 4 138)) (TyBasic (mkSpan (mkPtok 22 "u32" 54 2 134) (mkPtok 22 "u32" 54 2 134)) (mkBasicType (mkSpan (mkPtok 22 "u32" 54 2 134) (mkPtok 22 "u32" 54 2 134)) (mkPtok 22 "u32" 54 2 134))) (mkPtok 42 "repeatCount" 55 4 135) (Some (mkPtok 43 (string_of_bytes [96; 230; 182; 136; 230; 129; 175; 231; 177; 187; 229; 158; 139; 96]%N) 55 16 136)) (mkPtok 40 "," 57 4 138)))] (mkPtok 3 "}" 57 5 139)) (mkPtok 40 "," 57 7 140))] (mkPtok 3 "}" 57 9 141)) (mkPtok 40 "," 58 4 142))); (mkFieldWithAttr (mkSpan (mkPtok 36 "repeat" 59 0 143) (mkPtok 40 "," 60 0 145)) [] (ObjectField (mkSpan (mkPtok 36 "repeat" 59 0 143) (mkPtok 40 "," 60 0 145)) (Some (mkPtok 36 "repeat" 59 0 143)) (mkPtok 42 "MetaDataX" 59 7 144) None None (mkPtok 40 "," 60 0 145))); (mkFieldWithAttr (mkSpan (mkPtok 12 "char[" 60 2 146) (mkPtok 40 "," 61 16 154)) [] (LengthField (mkSpan (mkPtok 12 "char[" 60 2 146) (mkPtok 40 "," 61 16 154)) (mkLengthFieldDecl (mkSpan (mkPtok 12 "char[" 60 2 146) (mkPtok 40 "," 61 16 154)) (Some (TyFixed (mkSpan (mkPtok 12 "char[" 60 2 146) (mkPtok 13 "]" 60 19 148)) (mkFixedString (mkSpan (mkPtok 12 "char[" 60 2 146) (mkPtok 13 "]" 60 19 148)) (mkPtok 12 "char[" 60 2 146) (mkPtok 30 "4294967296" 60 8 147) (mkPtok 13 "]" 60 19 148)))) (mkPtok 42 "i8i8" 60 21 149) (mkLengthOf (mkSpan (mkPtok 7 "@lengthOf(" 61 0 151) (mkPtok 6 ")" 61 14 153)) (mkPtok 7 "@lengthOf(" 61 0 151) (mkPtok 42 "_x" 61 11 152) (mkPtok 6 ")" 61 14 153)) None (mkPtok 40 "," 61 16 154))))] (mkPtok 3 "}" 61 17 155))); (DPacket (mkPacketDef (mkSpan (mkPtok 35 "packet" 62 0 156) (mkPtok 3 "}" 79 4 195)) None (mkPtok 35 "packet" 62 0 156) (mkPtok 42 "falsey" 62 7 157) (mkPtok 2 "{" 62 14 158) [(mkFieldWithAttr (mkSpan (mkPtok 42 "tag" 63 4 159) (mkPtok 40 "," 70 0 172)) [] (InerObjectField (mkSpan (mkPtok 42 "tag" 63 4 159) (mkPtok 40 "," 70 0 172)) None (InerObjectDecl (mkSpan (mkPtok 42 "tag" 63 4 159) (mkPtok 3 "}" 69 0 171)) (mkPtok 42 "tag" 63 4 159) (mkPtok 2 "{" 64 0 160) [(LengthField (mkSpan (mkPtok 12 "char[" 64 2 161) (mkPtok 40 "," 68 6 170)) (mkLengthFieldDecl (mkSpan (mkPtok 12 "char[" 64 2 161) (mkPtok 40 "," 68 6 170)) (Some (TyFixed (mkSpan (mkPtok 12 "char[" 64 2 161) (mkPtok 13 "]" 67 4 165)) (mkFixedString (mkSpan (mkPtok 12 "char[" 64 2 161) (mkPtok 13 "]" 67 4 165)) (mkPtok 12 "char[" 64 2 161) (mkPtok 30 "00" 65 0 163) (mkPtok 13 "]" 67 4 165)))) (mkPtok 42 "int" 67 6 166) (mkLengthOf (mkSpan (mkPtok 7 "@lengthOf(" 67 9 167) (mkPtok 6 ")" 68 4 169)) (mkPtok 7 "@lengthOf(" 67 9 167) (mkPtok 42 "u128" 67 20 168) (mkPtok 6 ")" 68 4 169)) None (mkPtok 40 "," 68 6 170)))] (mkPtok 3 "}" 69 0 171)) (mkPtok 40 "," 70 0 172))); (mkFieldWithAttr (mkSpan (mkPtok 42 "roots" 70 1 173) (mkPtok 40 "," 70 12 175)) [] (ObjectField (mkSpan (mkPtok 42 "roots" 70 1 173) (mkPtok 40 "," 70 12 175)) None (mkPtok 42 "roots" 70 1 173) (Some (mkPtok 42 "body" 70 7 174)) None (mkPtok 40 "," 70 12 175))); (mkFieldWithAttr (mkSpan (mkPtok 21 "u16" 70 13 176) (mkPtok 40 "," 74 7 184)) [] (LengthField (mkSpan (mkPtok 21 "u16" 70 13 176) (mkPtok 40 "," 74 7 184)) (mkLengthFieldDecl (mkSpan (mkPtok 21 "u16" 70 13 176) (mkPtok 40 "," 74 7 184)) (Some (TyBasic (mkSpan (mkPtok 21 "u16" 70 13 176) (mkPtok 21 "u16" 70 13 176)) (mkBasicType (mkSpan (mkPtok 21 "u16" 70 13 176) (mkPtok 21 "u16" 70 13 176)) (mkPtok 21 "u16" 70 13 176)))) (mkPtok 42 "stringy" 70 17 177) (mkLengthOf (mkSpan (mkPtok 7 "@lengthOf(" 73 0 180) (mkPtok 6 ")" 73 15 182)) (mkPtok 7 "@lengthOf(" 73 0 180) (mkPtok 42 "Pad" 73 11 181) (mkPtok 6 ")" 73 15 182)) (Some (mkPtok 43 (string_of_bytes [96; 108; 105; 110; 101; 49; 10; 108; 105; 110; 101; 50; 96]%N) 73 17 183)) (mkPtok 40 "," 74 7 184)))); (mkFieldWithAttr (mkSpan (mkPtok 42 "stringy" 75 0 185) (mkPtok 40 "," 76 20 189)) [] (LengthField (mkSpan (mkPtok 42 "stringy" 75 0 185) (mkPtok 40 "," 76 20 189)) (mkLengthFieldDecl (mkSpan (mkPtok 42 "stringy" 75 0 185) (mkPtok 40 "," 76 20 189)) None (mkPtok 42 "stringy" 75 0 185) (mkLengthOf (mkSpan (mkPtok 7 "@lengthOf(" 76 0 186) (mkPtok 6 ")" 76 18 188)) (mkPtok 7 "@lengthOf(" 76 0 186) (mkPtok 42 "chars" 76 12 187) (mkPtok 6 ")" 76 18 188)) None (mkPtok 40 "," 76 20 189)))); (mkFieldWithAttr (mkSpan (mkPtok 20 "uint8" 76 21 190) (mkPtok 40 "," 77 4 193)) [] (MetaField (mkSpan (mkPtok 20 "uint8" 76 21 190) (mkPtok 40 "," 77 4 193)) None (mkMetaDecl (mkSpan (mkPtok 20 "uint8" 76 21 190) (mkPtok 40 "," 77 4 193)) (TyBasic (mkSpan (mkPtok 20 "uint8" 76 21 190) (mkPtok 20 "uint8" 76 21 190)) (mkBasicType (mkSpan (mkPtok 20 "uint8" 76 21 190) (mkPtok 20 "uint8" 76 21 190)) (mkPtok 20 "uint8" 76 21 190))) (mkPtok 42 "lengthOf" 76 27 191) (Some (mkPtok 43 (string_of_bytes [96; 195; 169; 96]%N) 77 0 192)) (mkPtok 40 "," 77 4 193))))] (mkPtok 3 "}" 79 4 195)))])).
-Eval vm_compute in ("<<<M191>>>" ++ check (runes_of_ascii "MetaData float {
-    lengthOf u128 `tab	here` ,u x ,
-metadata crc `line1
-line2` ,
-} root
-packet//
-trueish { @leftPad (
-'0'
-    ) repeat zchar[ 10 ] lengthOf `u8 x,`
-    ,@leftPad
-// " ++ [27880; 37322]%N ++ runes_of_ascii "
-// trailing space 
-('\x00'	) zchar[ 255 ] tag
-// a // b
-// @lengthOf(
-,
-@leftPad	(
-    ) u128 trueish, chars@lengthOf(
-    i64_
-) `it's` //	t
-,
-    @tag( 10 ) zchar[
-    007 ] asx, char[
-1]
-    zchar,
-// `tick` ""quote"" 'q'
-// trailing space 
-@tag( 7
-    // packet A { u8 x, }
-    ) @calculatedFrom(""packet""
-    )	match  f32a as
-uint8x{
-00  :Header , 007// trailing space 
-: charz ,[ 255 , """ ++ [233]%N ++ runes_of_ascii "t" ++ [233]%N ++ runes_of_ascii """ ] :
-rootA
-    // `tick` ""quote"" 'q'
-    ""it's"" :
-    lengthOf
-,""x y"" :
-pack //x
-,
-""" ++ [28040; 24687]%N ++ runes_of_ascii """
-: _x , } , repeat Header { char[ 7] i8i8 ,char  msg_type @lengthOf(pack ) `line1
-line2`
-,
-// packet A { u8 x, }
-// a // b
-uint8
-crc @lengthOf(
-zchar ) `line1
-line2` ,} , } packet Foo
-    { } packet// @lengthOf(
-Foo { zchar[0123456789
-    ]
-    packetx
     @calculatedFrom(
-""packet"" // packet A { u8 x, }
-)
-    `doc`  , zchar @calculatedFrom( ""\n""//	t
-)
-`
-` , @leftPad  ( '\x00' )
-    @tag( // trailing space 
-65535 ) char[ 0
-/// triple
-// c
-] metadata@calculatedFrom( ""a\""b"" ), repeat
-    lengthOf{ lengthOf
-`" ++ [233]%N ++ runes_of_ascii "`
-    // `tick` ""quote"" 'q'
-    ,
-} , As , }
-packet BodyLength {//x
-@calculatedFrom( ""a\""b""
-)
-    @lengthOf( x ) @tag( 00
-) Packet zchar
-    `` ,
-@tag(0123456789 )	repeat	char[ 255 ]  x `it's`,// a // b
-u
-// " ++ [128512]%N ++ runes_of_ascii " emoji
-// c
-{ match BodyLength
-as
-// packet A { u8 x, }
-// `tick` ""quote"" 'q'
-tag
-    {3
-: matchKey ,} ,
-} ,@tag( 0123456789 )
-    // " ++ [128512]%N ++ runes_of_ascii " emoji
-    char	asx `line1
-line2`,@lengthOf( chars ) @calculatedFrom(
-""a	b"" )f64 len
-    , match int as //x
-BodyLength { 1
-:
-    Header ,[ 0 ] :// c
-tag
-""" ++ [28040; 24687]%N ++ runes_of_ascii """ :asx, } , @leftPad
-( ' '
-    ) metadata `crlf
-line` ,
-// `tick` ""quote"" 'q'
-// trailing space 
-len
-@lengthOf( metadata
-    ), zchar[  65535 ]
-    A
-@lengthOf( // c
-trueish )
-,@leftPad ( '0'
-)
-repeatCount Z9_
-    `" ++ [233]%N ++ runes_of_ascii "`  ,
-} 	 ")).
-Eval vm_compute in ("<<<M201>>>" ++ check (runes_of_ascii "root
-packet u{}
-")).
-Eval vm_compute in ("<<<M211>>>" ++ check (runes_of_ascii "options {
-chars  =
-    //x
-    ' '	}
-root packet	string_ {i8i8 @lengthOf(
-Z9_ )
-,	match int as chars // c
-{ 007: body	,[ // packet A { u8 x, }
-42 ] : int	, ""`tick`"" : options1
-, } ,
-@leftPad ( ' ' )uint16 crc `it's` , // a // b
-float64  packetx
-@lengthOf( crc // " ++ [27880; 37322]%N ++ runes_of_ascii "
-)// trailing space 
-, @tag(4294967296
-) match int
-as chars{4294967296
-    : Foo ,
-1:
-asx 10
-: Pad
-    0123456789	: string_
-,
-3
-// " ++ [27880; 37322]%N ++ runes_of_ascii "
-// " ++ [128512]%N ++ runes_of_ascii " emoji
-: T , ""it's""  : As  } , repeat  float falsey `say ""hi""`  ,
-match uint8x as zchar { ""// no comment""
-    : body
-, 0123456789 : crc , ""{,}"" : o } ,repeat o chars ,uint32
-As
-`doc` ,
-repeat trueish
-{ char[
-    7
-] i64_
-`{ , }`  , }
-, } packet
-    Packet {
-zchar[ 0123456789 ] matchKey @lengthOf( chars
-)  ,  x
-//	t
-// a // b
-{
-u64 o ,} , zchar[
-    // a // b
-    1 ]
-    MetaDataX
-@calculatedFrom(
-"""" ), char[]lengthOf// trailing space 
-@calculatedFrom( // " ++ [27880; 37322]%N ++ runes_of_ascii "
-""a\""b""
-) `
-` ,@rightPad( ' ' ) //	t
-uint16
-len `a\` , @lengthOf( //x
-tag )
-char[ 65535
-] pack ``, }
-")).
-Eval vm_compute in ("<<<M221>>>" ++ check (runes_of_ascii "root packet matchKey{f32a// " ++ [27880; 37322]%N ++ runes_of_ascii "
-`u8 x,` ,	char[]u8x ,
-@calculatedFrom( ""a\""b"" )
-i32 i8i8 , }
-
-")).
-Eval vm_compute in ("<<<M231>>>" ++ check (runes_of_ascii "options	{ // packet A { u8 x, }
-rootA
-= true
-    ; chars
-=	true // packet A { u8 x, }
-}options	{	lengthOf // @lengthOf(
-= 3
-trueish
-= ' '
-    ;
-    /// triple
-    crc
-// trailing space 
-// @lengthOf(
-=
-    // trailing space 
-    true  ;
-    rootA =""it's""; chars=
-    int32 ;//x
-}
-")).
-Eval vm_compute in ("<<<M241>>>" ++ check (runes_of_ascii "packet falsey { int64
-BodyLength , @tag( 4294967296) // packet A { u8 x, }
-@leftPad (
-    )
-match _x as Foo
-//	t
-// packet A { u8 x, }
-{ ""\n"": asx
-// `tick` ""quote"" 'q'
-// `tick` ""quote"" 'q'
-[ ""{,}""
-,	4294967296, """ ++ [128512]%N ++ runes_of_ascii """//	t
-, """ ++ [28040; 24687]%N ++ runes_of_ascii """,
-""packet"", ""packet""
-    // " ++ [27880; 37322]%N ++ runes_of_ascii "
-    , ""x y"" ,
-// trailing space 
-// " ++ [128512]%N ++ runes_of_ascii " emoji
-7 ]	: x_y_z	, } , // `tick` ""quote"" 'q'
-A len`// not a comment`
-    ,
-    //
-    repeat char[]
-i64_ `crlf
-line` ,
-// trailing space 
-// trailing space 
-repeat char[] u `line1
-line2`	, tag {string metadata ,
-    } ,
-// " ++ [27880; 37322]%N ++ runes_of_ascii "
-// " ++ [128512]%N ++ runes_of_ascii " emoji
-char[3
-    ] falsey @lengthOf(
-    leftPad ) `crlf
-line`
-,  } root	packet
-MetaDataX {@lengthOf( //
-u8x )
-    match f32a as Header {[ ""a\""b""
-//x
-// `tick` ""quote"" 'q'
-,255]:  u8x , ""packet""
-:
-uint8x
-    ,""1""
-:
-_x , },
-    Packet `doc` , zchar[
-    3 // " ++ [128512]%N ++ runes_of_ascii " emoji
-] u128 @lengthOf( asx  ) ,
-    }  MetaData x/// triple
-{
-// `tick` ""quote"" 'q'
-// `tick` ""quote"" 'q'
-As  roots , char[
-10	] crc
-// " ++ [128512]%N ++ runes_of_ascii " emoji
-/// triple
-`{ , }` ,
-    BodyLength
-asx  `u8 x,` ,matchKey i8i8 , falsey pack `" ++ [233]%N ++ runes_of_ascii "`,leftPad metadata ,
-    }
-options { pack	= 0 tag
-= f32 i64_ =""abc""	;
-// " ++ [128512]%N ++ runes_of_ascii " emoji
-// " ++ [128512]%N ++ runes_of_ascii " emoji
-f32a=
-    true ; } packet Foo { }
-")).
-Eval vm_compute in ("<<<M251>>>" ++ check (runes_of_ascii "packet
-    uint8x { @tag(	0123456789 // a // b
-) match u as
-As
-    {
-    ""1""
-    :	o ,4294967296 : charz [ ""CRC32""
-    ]	: A , 42: zchar, ""CRC32"" : leftPad //	t
-,
-    """ ++ [28040; 24687]%N ++ runes_of_ascii """// " ++ [128512]%N ++ runes_of_ascii " emoji
-: uint8x, } , }
-    options {
-u128 = uint32
-}
-    packet
-chars
-{
-    // a // b
-    float @lengthOf( _x ) // `tick` ""quote"" 'q'
-, string
-    chars@lengthOf(
-matchKey
-// @lengthOf(
-// packet A { u8 x, }
-) , match  crc as
-    Z9_ {0123456789 : int
-    ,""x y"" //
-:
-    rootA,	""`tick`""
-    : As,
-    // @lengthOf(
-    } ,@tag(7 )
-Pad @lengthOf( trueish  )`u8 x,`
-,}
-packet float
-{ repeat Packet{ lengthOf {
-    //
-    repeat f32a`it's`
-, } ,	o @lengthOf( calculatedFrom	)  , }
-,}
-
-")).
-Eval vm_compute in ("<<<T251>>>" ++ terms [mkTok 35 "packet" 1 0 false; mkTok 42 "uint8x" 2 4 false; mkTok 2 "{" 2 11 false; mkTok 9 "@tag(" 2 13 false; mkTok 30 "0123456789" 2 19 false; mkTok 44 "// a // b" 2 30 true; mkTok 6 ")" 3 0 false; mkTok 38 "match" 3 2 false; mkTok 42 "u" 3 8 false; mkTok 17 "as" 3 10 false; mkTok 42 "As" 4 0 false; mkTok 2 "{" 5 4 false; mkTok 31 """1""" 6 4 false; mkTok 39 ":" 7 4 false; mkTok 42 "o" 7 6 false; mkTok 40 "," 7 8 false; mkTok 30 "4294967296" 7 9 false; mkTok 39 ":" 7 20 false; mkTok 42 "charz" 7 22 false; mkTok 18 "[" 7 28 false; mkTok 31 """CRC32""" 7 30 false; mkTok 13 "]" 8 4 false; mkTok 39 ":" 8 6 false; mkTok 42 "A" 8 8 false; mkTok 40 "," 8 10 false; mkTok 30 "42" 8 12 false; mkTok 39 ":" 8 14 false; mkTok 42 "zchar" 8 16 false; mkTok 40 "," 8 21 false; mkTok 31 """CRC32""" 8 23 false; mkTok 39 ":" 8 31 false; mkTok 42 "leftPad" 8 33 false; mkTok 44 (string_of_bytes [47; 47; 9; 116]%N) 8 41 true; mkTok 40 "," 9 0 false; mkTok 31 (string_of_bytes [34; 230; 182; 136; 230; 129; 175; 34]%N) 10 4 false; mkTok 44 (string_of_bytes [47; 47; 32; 240; 159; 152; 128; 32; 101; 109; 111; 106; 105]%N) 10 8 true; mkTok 39 ":" 11 0 false; mkTok 42 "uint8x" 11 2 false; mkTok 40 "," 11 8 false; mkTok 3 "}" 11 10 false; mkTok 40 "," 11 12 false; mkTok 3 "}" 11 14 false; mkTok 1 "options" 12 4 false; mkTok 2 "{" 12 12 false; mkTok 42 "u128" 13 0 false; mkTok 4 "=" 13 5 false; mkTok 22 "uint32" 13 7 false; mkTok 3 "}" 14 0 false; mkTok 35 "packet" 15 4 false; mkTok 42 "chars" 16 0 false; mkTok 2 "{" 17 0 false; mkTok 44 "// a // b" 18 4 true; mkTok 42 "float" 19 4 false; mkTok 7 "@lengthOf(" 19 10 false; mkTok 42 "_x" 19 21 false; mkTok 6 ")" 19 24 false; mkTok 44 "// `tick` ""quote"" 'q'" 19 26 true; mkTok 40 "," 20 0 false; mkTok 15 "string" 20 2 false; mkTok 42 "chars" 21 4 false; mkTok 7 "@lengthOf(" 21 9 false; mkTok 42 "matchKey" 22 0 false; mkTok 44 "// @lengthOf(" 23 0 true; mkTok 44 "// packet A { u8 x, }" 24 0 true; mkTok 6 ")" 25 0 false; mkTok 40 "," 25 2 false; mkTok 38 "match" 25 4 false; mkTok 42 "crc" 25 11 false; mkTok 17 "as" 25 15 false; mkTok 42 "Z9_" 26 4 false; mkTok 2 "{" 26 8 false; mkTok 30 "0123456789" 26 9 false; mkTok 39 ":" 26 20 false; mkTok 42 "int" 26 22 false; mkTok 40 "," 27 4 false; mkTok 31 """x y""" 27 5 false; mkTok 44 "//" 27 11 true; mkTok 39 ":" 28 0 false; mkTok 42 "rootA" 29 4 false; mkTok 40 "," 29 9 false; mkTok 31 """`tick`""" 29 11 false; mkTok 39 ":" 30 4 false; mkTok 42 "As" 30 6 false; mkTok 40 "," 30 8 false; mkTok 44 "// @lengthOf(" 31 4 true; mkTok 3 "}" 32 4 false; mkTok 40 "," 32 6 false; mkTok 9 "@tag(" 32 7 false; mkTok 30 "7" 32 12 false; mkTok 6 ")" 32 14 false; mkTok 42 "Pad" 33 0 false; mkTok 7 "@lengthOf(" 33 4 false; mkTok 42 "trueish" 33 15 false; mkTok 6 ")" 33 24 false; mkTok 43 "`u8 x,`" 33 25 false; mkTok 40 "," 34 0 false; mkTok 3 "}" 34 1 false; mkTok 35 "packet" 35 0 false; mkTok 42 "float" 35 7 false; mkTok 2 "{" 36 0 false; mkTok 36 "repeat" 36 2 false; mkTok 42 "Packet" 36 9 false; mkTok 2 "{" 36 15 false; mkTok 42 "lengthOf" 36 17 false; mkTok 2 "{" 36 26 false; mkTok 44 "//" 37 4 true; mkTok 36 "repeat" 38 4 false; mkTok 42 "f32a" 38 11 false; mkTok 43 "`it's`" 38 15 false; mkTok 40 "," 39 0 false; mkTok 3 "}" 39 2 false; mkTok 40 "," 39 4 false; mkTok 42 "o" 39 6 false; mkTok 7 "@lengthOf(" 39 8 false; mkTok 42 "calculatedFrom" 39 19 false; mkTok 6 ")" 39 34 false; mkTok 40 "," 39 37 false; mkTok 3 "}" 39 39 false; mkTok 40 "," 40 0 false; mkTok 3 "}" 40 1 false; mkTok 0 "<EOF>" 42 0 false] (mkPacket (mkPtok 35 "packet" 1 0 0) (Some (mkPtok 3 "}" 40 1 119)) [(DPacket (mkPacketDef (mkSpan (mkPtok 35 "packet" 1 0 0) (mkPtok 3 "}" 11 14 41)) None (mkPtok 35 "packet" 1 0 0) (mkPtok 42 "uint8x" 2 4 1) (mkPtok 2 "{" 2 11 2) [(mkFieldWithAttr (mkSpan (mkPtok 9 "@tag(" 2 13 3) (mkPtok 40 "," 11 12 40)) [(FATag (mkSpan (mkPtok 9 "@tag(" 2 13 3) (mkPtok 6 ")" 3 0 6)) (mkTagAttr (mkSpan (mkPtok 9 "@tag(" 2 13 3) (mkPtok 6 ")" 3 0 6)) (mkPtok 9 "@tag(" 2 13 3) (mkPtok 30 "0123456789" 2 19 4) (mkPtok 6 ")" 3 0 6)))] (MatchField (mkSpan (mkPtok 38 "match" 3 2 7) (mkPtok 40 "," 11 12 40)) (mkMatchFieldDecl (mkSpan (mkPtok 38 "match" 3 2 7) (mkPtok 3 "}" 11 10 39)) (mkPtok 38 "match" 3 2 7) (mkPtok 42 "u" 3 8 8) (mkPtok 17 "as" 3 10 9) (mkPtok 42 "As" 4 0 10) (mkPtok 2 "{" 5 4 11) [(mkMatchPair (mkSpan (mkPtok 31 """1""" 6 4 12) (mkPtok 40 "," 7 8 15)) (MKString (mkPtok 31 """1""" 6 4 12)) (mkPtok 39 ":" 7 4 13) (mkPtok 42 "o" 7 6 14) (Some (mkPtok 40 "," 7 8 15))); (mkMatchPair (mkSpan (mkPtok 30 "4294967296" 7 9 16) (mkPtok 42 "charz" 7 22 18)) (MKDigits (mkPtok 30 "4294967296" 7 9 16)) (mkPtok 39 ":" 7 20 17) (mkPtok 42 "charz" 7 22 18) None); (mkMatchPair (mkSpan (mkPtok 18 "[" 7 28 19) (mkPtok 40 "," 8 10 24)) (MKList (mkKeyList (mkSpan (mkPtok 18 "[" 7 28 19) (mkPtok 13 "]" 8 4 21)) (mkPtok 18 "[" 7 28 19) (mkPtok 31 """CRC32""" 7 30 20) [] (mkPtok 13 "]" 8 4 21))) (mkPtok 39 ":" 8 6 22) (mkPtok 42 "A" 8 8 23) (Some (mkPtok 40 "," 8 10 24))); (mkMatchPair (mkSpan (mkPtok 30 "42" 8 12 25) (mkPtok 40 "," 8 21 28)) (MKDigits (mkPtok 30 "42" 8 12 25)) (mkPtok 39 ":" 8 14 26) (mkPtok 42 "zchar" 8 16 27) (Some (mkPtok 40 "," 8 21 28))); (mkMatchPair (mkSpan (mkPtok 31 """CRC32""" 8 23 29) (mkPtok 40 "," 9 0 33)) (MKString (mkPtok 31 """CRC32""" 8 23 29)) (mkPtok 39 ":" 8 31 30) (mkPtok 42 "leftPad" 8 33 31) (Some (mkPtok 40 "," 9 0 33))); (mkMatchPair (mkSpan (mkPtok 31 (string_of_bytes [34; 230; 182; 136; 230; 129; 175; 34]%N) 10 4 34) (mkPtok 40 "," 11 8 38)) (MKString (mkPtok 31 (string_of_bytes [34; 230; 182; 136; 230; 129; 175; 34]%N) 10 4 34)) (mkPtok 39 ":" 11 0 36) (mkPtok 42 "uint8x" 11 2 37) (Some (mkPtok 40 "," 11 8 38)))] (mkPtok 3 "}" 11 10 39)) (mkPtok 40 "," 11 12 40)))] (mkPtok 3 "}" 11 14 41))); (DOption (mkOptionDef (mkSpan (mkPtok 1 "options" 12 4 42) (mkPtok 3 "}" 14 0 47)) (mkPtok 1 "options" 12 4 42) (mkPtok 2 "{" 12 12 43) [(mkOptionDecl (mkSpan (mkPtok 42 "u128" 13 0 44) (mkPtok 22 "uint32" 13 7 46)) (mkPtok 42 "u128" 13 0 44) (mkPtok 4 "=" 13 5 45) (VType (mkSpan (mkPtok 22 "uint32" 13 7 46) (mkPtok 22 "uint32" 13 7 46)) (TyBasic (mkSpan (mkPtok 22 "uint32" 13 7 46) (mkPtok 22 "uint32" 13 7 46)) (mkBasicType (mkSpan (mkPtok 22 "uint32" 13 7 46) (mkPtok 22 "uint32" 13 7 46)) (mkPtok 22 "uint32" 13 7 46)))) None)] (mkPtok 3 "}" 14 0 47))); (DPacket (mkPacketDef (mkSpan (mkPtok 35 "packet" 15 4 48) (mkPtok 3 "}" 34 1 96)) None (mkPtok 35 "packet" 15 4 48) (mkPtok 42 "chars" 16 0 49) (mkPtok 2 "{" 17 0 50) [(mkFieldWithAttr (mkSpan (mkPtok 42 "float" 19 4 52) (mkPtok 40 "," 20 0 57)) [] (LengthField (mkSpan (mkPtok 42 "float" 19 4 52) (mkPtok 40 "," 20 0 57)) (mkLengthFieldDecl (mkSpan (mkPtok 42 "float" 19 4 52) (mkPtok 40 "," 20 0 57)) None (mkPtok 42 "float" 19 4 52) (mkLengthOf (mkSpan (mkPtok 7 "@lengthOf(" 19 10 53) (mkPtok 6 ")" 19 24 55)) (mkPtok 7 "@lengthOf(" 19 10 53) (mkPtok 42 "_x" 19 21 54) (mkPtok 6 ")" 19 24 55)) None (mkPtok 40 "," 20 0 57)))); (mkFieldWithAttr (mkSpan (mkPtok 15 "string" 20 2 58) (mkPtok 40 "," 25 2 65)) [] (LengthField (mkSpan (mkPtok 15 "string" 20 2 58) (mkPtok 40 "," 25 2 65)) (mkLengthFieldDecl (mkSpan (mkPtok 15 "string" 20 2 58) (mkPtok 40 "," 25 2 65)) (Some (TyDynamic (mkSpan (mkPtok 15 "string" 20 2 58) (mkPtok 15 "string" 20 2 58)) (mkDynamicString (mkSpan (mkPtok 15 "string" 20 2 58) (mkPtok 15 "string" 20 2 58)) (mkPtok 15 "string" 20 2 58)))) (mkPtok 42 "chars" 21 4 59) (mkLengthOf (mkSpan (mkPtok 7 "@lengthOf(" 21 9 60) (mkPtok 6 ")" 25 0 64)) (mkPtok 7 "@lengthOf(" 21 9 60) (mkPtok 42 "matchKey" 22 0 61) (mkPtok 6 ")" 25 0 64)) None (mkPtok 40 "," 25 2 65)))); (mkFieldWithAttr (mkSpan (mkPtok 38 "match" 25 4 66) (mkPtok 40 "," 32 6 86)) [] (MatchField (mkSpan (mkPtok 38 "match" 25 4 66) (mkPtok 40 "," 32 6 86)) (mkMatchFieldDecl (mkSpan (mkPtok 38 "match" 25 4 66) (mkPtok 3 "}" 32 4 85)) (mkPtok 38 "match" 25 4 66) (mkPtok 42 "crc" 25 11 67) (mkPtok 17 "as" 25 15 68) (mkPtok 42 "Z9_" 26 4 69) (mkPtok 2 "{" 26 8 70) [(mkMatchPair (mkSpan (mkPtok 30 "0123456789" 26 9 71) (mkPtok 40 "," 27 4 74)) (MKDigits (mkPtok 30 "0123456789" 26 9 71)) (mkPtok 39 ":" 26 20 72) (mkPtok 42 "int" 26 22 73) (Some (mkPtok 40 "," 27 4 74))); (mkMatchPair (mkSpan (mkPtok 31 """x y""" 27 5 75) (mkPtok 40 "," 29 9 79)) (MKString (mkPtok 31 """x y""" 27 5 75)) (mkPtok 39 ":" 28 0 77) (mkPtok 42 "rootA" 29 4 78) (Some (mkPtok 40 "," 29 9 79))); (mkMatchPair (mkSpan (mkPtok 31 """`tick`""" 29 11 80) (mkPtok 40 "," 30 8 83)) (MKString (mkPtok 31 """`tick`""" 29 11 80)) (mkPtok 39 ":" 30 4 81) (mkPtok 42 "As" 30 6 82) (Some (mkPtok 40 "," 30 8 83)))] (mkPtok 3 "}" 32 4 85)) (mkPtok 40 "," 32 6 86))); (mkFieldWithAttr (mkSpan (mkPtok 9 "@tag(" 32 7 87) (mkPtok 40 "," 34 0 95)) [(FATag (mkSpan (mkPtok 9 "@tag(" 32 7 87) (mkPtok 6 ")" 32 14 89)) (mkTagAttr (mkSpan (mkPtok 9 "@tag(" 32 7 87) (mkPtok 6 ")" 32 14 89)) (mkPtok 9 "@tag(" 32 7 87) (mkPtok 30 "7" 32 12 88) (mkPtok 6 ")" 32 14 89)))] (LengthField (mkSpan (mkPtok 42 "Pad" 33 0 90) (mkPtok 40 "," 34 0 95)) (mkLengthFieldDecl (mkSpan (mkPtok 42 "Pad" 33 0 90) (mkPtok 40 "," 34 0 95)) None (mkPtok 42 "Pad" 33 0 90) (mkLengthOf (mkSpan (mkPtok 7 "@lengthOf(" 33 4 91) (mkPtok 6 ")" 33 24 93)) (mkPtok 7 "@lengthOf(" 33 4 91) (mkPtok 42 "trueish" 33 15 92) (mkPtok 6 ")" 33 24 93)) (Some (mkPtok 43 "`u8 x,`" 33 25 94)) (mkPtok 40 "," 34 0 95))))] (mkPtok 3 "}" 34 1 96))); (DPacket (mkPacketDef (mkSpan (mkPtok 35 "packet" 35 0 97) (mkPtok 3 "}" 40 1 119)) None (mkPtok 35 "packet" 35 0 97) (mkPtok 42 "float" 35 7 98) (mkPtok 2 "{" 36 0 99) [(mkFieldWithAttr (mkSpan (mkPtok 36 "repeat" 36 2 100) (mkPtok 40 "," 40 0 118)) [] (InerObjectField (mkSpan (mkPtok 36 "repeat" 36 2 100) (mkPtok 40 "," 40 0 118)) (Some (mkPtok 36 "repeat" 36 2 100)) (InerObjectDecl (mkSpan (mkPtok 42 "Packet" 36 9 101) (mkPtok 3 "}" 39 39 117)) (mkPtok 42 "Packet" 36 9 101) (mkPtok 2 "{" 36 15 102) [(InerObjectField (mkSpan (mkPtok 42 "lengthOf" 36 17 103) (mkPtok 40 "," 39 4 111)) None (InerObjectDecl (mkSpan (mkPtok 42 "lengthOf" 36 17 103) (mkPtok 3 "}" 39 2 110)) (mkPtok 42 "lengthOf" 36 17 103) (mkPtok 2 "{" 36 26 104) [(ObjectField (mkSpan (mkPtok 36 "repeat" 38 4 106) (mkPtok 40 "," 39 0 109)) (Some (mkPtok 36 "repeat" 38 4 106)) (mkPtok 42 "f32a" 38 11 107) None (Some (mkPtok 43 "`it's`" 38 15 108)) (mkPtok 40 "," 39 0 109))] (mkPtok 3 "}" 39 2 110)) (mkPtok 40 "," 39 4 111)); (LengthField (mkSpan (mkPtok 42 "o" 39 6 112) (mkPtok 40 "," 39 37 116)) (mkLengthFieldDecl (mkSpan (mkPtok 42 "o" 39 6 112) (mkPtok 40 "," 39 37 116)) None (mkPtok 42 "o" 39 6 112) (mkLengthOf (mkSpan (mkPtok 7 "@lengthOf(" 39 8 113) (mkPtok 6 ")" 39 34 115)) (mkPtok 7 "@lengthOf(" 39 8 113) (mkPtok 42 "calculatedFrom" 39 19 114) (mkPtok 6 ")" 39 34 115)) None (mkPtok 40 "," 39 37 116)))] (mkPtok 3 "}" 39 39 117)) (mkPtok 40 "," 40 0 118)))] (mkPtok 3 "}" 40 1 119)))])).
-Eval vm_compute in ("<<<M261>>>" ++ check (runes_of_ascii "options { tag
-=
-false// c
-; charz =
-char[
-    //
-    4294967296 ] ; float = ' '; u =// `tick` ""quote"" 'q'
-zchar[ 255
-    ] x//x
-=
-    ""a\""b""}
-packet leftPad /// triple
-{match
-As as
-    falsey{ [ 10
-    ,0123456789, 007
-,
-""" ++ [28040; 24687]%N ++ runes_of_ascii """
-// a // b
-// trailing space 
-, //	t
-""packet""	, ""`tick`"", ""1"" ] :
-calculatedFrom , } ,@calculatedFrom(
-    ""it's""
-) float64// c
-x_y_z @lengthOf(  leftPad ) , trueish
-@lengthOf(packetx)
-    , }options
-{ string_	=
-    ""a\""b"" ;
-_x = false }
-")).
-Eval vm_compute in ("<<<M271>>>" ++ check (runes_of_ascii "
-packet
-crc{ } options
-{ len= '0' } packet uint8x {T  charz `u8 x,` ,
-}
-    MetaData  packetx //	t
-{
-// `tick` ""quote"" 'q'
-// trailing space 
-} options
-    { Header
-    =""CRC32""
-;
-    charz =
-    string MetaDataX
-=
-true ;}
-")).
-Eval vm_compute in ("<<<M281>>>" ++ check (runes_of_ascii "// trailing space 
-packet
-// packet A { u8 x, }
-// packet A { u8 x, }
-o {
-@calculatedFrom(
+""1"" ) match u8x
+as chars {[ ""CRC32"" ]
+: packetx,""" ++ [233]%N ++ runes_of_ascii "t" ++ [233]%N ++ runes_of_ascii """
+:tag
+, 0123456789: calculatedFrom// a // b
+, 7 : lengthOf , [ ""a	b"" , 65535 , 3	,
 ""`tick`""
+    /// triple
+    ,  255 //x
+] :
+    u8x , 4294967296
+    :
+    Header , } , @lengthOf(
+// " ++ [27880; 37322]%N ++ runes_of_ascii "
+// @lengthOf(
+i64_ )	a1 `a\` , //x
+f32a
+    MetaDataX // " ++ [27880; 37322]%N ++ runes_of_ascii "
+, @lengthOf(
+    options1 )
+Pad @lengthOf( Pad ) // " ++ [128512]%N ++ runes_of_ascii " emoji
+`100% of %d` //	t
+, // 50% %s
+f32a
+    `{ , }`
+    ,
+    match MetaDataX//
+as asx  {""\" ++ [233]%N ++ runes_of_ascii """ : metadata
+    ,} , @tag(
+    255
+)
+char
+calculatedFrom
+    `crlf
+line`, @lengthOf( leftPad )
+repeatCount @lengthOf( int)
+,}
+packet
+T
+{ }
+")).
+Eval vm_compute in ("<<<M101>>>" ++ check (runes_of_ascii "packet
+_x  { @calculatedFrom( ""a\""b""
     //	t
-    )repeat i8 rootA
-, @calculatedFrom( ""`tick`""	)Logon
-body`line1
-line2` , // " ++ [128512]%N ++ runes_of_ascii " emoji
-@lengthOf(crc )@tag( 0
-) repeat
-falsey string_ , @calculatedFrom(
-"""" )
-    lengthOf/// triple
-, u16 calculatedFrom ,
-    i8i8//x
-tag `two words` , @tag( 1)	string rootA`u8 x,`
-,match pack as int { [
-""" ++ [233]%N ++ runes_of_ascii "t" ++ [233]%N ++ runes_of_ascii """
-, ""\" ++ [233]%N ++ runes_of_ascii """	, 10 ,  0,
-4294967296 , ""packet"" ,""" ++ [28040; 24687]%N ++ runes_of_ascii """
-,""" ++ [233]%N ++ runes_of_ascii "t" ++ [233]%N ++ runes_of_ascii """ ] : int
+    )
+// a // b
+/// triple
+@rightPad (// " ++ [27880; 37322]%N ++ runes_of_ascii "
+)
+    asx
+/// triple
 //x
+{ char[ 7
+    //	t
+    ]//
+As // " ++ [128512]%N ++ runes_of_ascii " emoji
+`` , } , }")).
+Eval vm_compute in ("<<<M111>>>" ++ check (runes_of_ascii "
+MetaData	Header {// `tick` ""quote"" 'q'
+i64_ i64_ /// triple
+, chars falsey , // trailing space 
+u32 MetaDataX//x
+, Header metadata ,
+zchar len, }options
+{
+    u8x = '0' calculatedFrom =zchar[ 4294967296	]
 // trailing space 
-, 3
-    :zchar , """ ++ [128512]%N ++ runes_of_ascii """
+// packet A { u8 x, }
+} MetaData  Pad	{}")).
+Eval vm_compute in ("<<<T111>>>" ++ terms [mkTok 37 "MetaData" 2 0 false; mkTok 42 "Header" 2 9 false; mkTok 2 "{" 2 16 false; mkTok 44 "// `tick` ""quote"" 'q'" 2 17 true; mkTok 42 "i64_" 3 0 false; mkTok 42 "i64_" 3 5 false; mkTok 44 "/// triple" 3 10 true; mkTok 40 "," 4 0 false; mkTok 42 "chars" 4 2 false; mkTok 42 "falsey" 4 8 false; mkTok 40 "," 4 15 false; mkTok 44 "// trailing space " 4 17 true; mkTok 22 "u32" 5 0 false; mkTok 42 "MetaDataX" 5 4 false; mkTok 44 "//x" 5 13 true; mkTok 40 "," 6 0 false; mkTok 42 "Header" 6 2 false; mkTok 42 "metadata" 6 9 false; mkTok 40 "," 6 18 false; mkTok 42 "zchar" 7 0 false; mkTok 42 "len" 7 6 false; mkTok 40 "," 7 9 false; mkTok 3 "}" 7 11 false; mkTok 1 "options" 7 12 false; mkTok 2 "{" 8 0 false; mkTok 42 "u8x" 9 4 false; mkTok 4 "=" 9 8 false; mkTok 33 "'0'" 9 10 false; mkTok 42 "calculatedFrom" 9 14 false; mkTok 4 "=" 9 29 false; mkTok 14 "zchar[" 9 30 false; mkTok 30 "4294967296" 9 37 false; mkTok 13 "]" 9 48 false; mkTok 44 "// trailing space " 10 0 true; mkTok 44 "// packet A { u8 x, }" 11 0 true; mkTok 3 "}" 12 0 false; mkTok 37 "MetaData" 12 2 false; mkTok 42 "Pad" 12 12 false; mkTok 2 "{" 12 16 false; mkTok 3 "}" 12 17 false; mkTok 0 "<EOF>" 12 18 false] (mkPacket (mkPtok 37 "MetaData" 2 0 0) (Some (mkPtok 3 "}" 12 17 39)) [(DMeta (mkMetaDef (mkSpan (mkPtok 37 "MetaData" 2 0 0) (mkPtok 3 "}" 7 11 22)) (mkPtok 37 "MetaData" 2 0 0) (mkPtok 42 "Header" 2 9 1) (mkPtok 2 "{" 2 16 2) [(MIRef (mkRefMetaDecl (mkSpan (mkPtok 42 "i64_" 3 0 4) (mkPtok 40 "," 4 0 7)) (mkPtok 42 "i64_" 3 0 4) (mkPtok 42 "i64_" 3 5 5) None (mkPtok 40 "," 4 0 7))); (MIRef (mkRefMetaDecl (mkSpan (mkPtok 42 "chars" 4 2 8) (mkPtok 40 "," 4 15 10)) (mkPtok 42 "chars" 4 2 8) (mkPtok 42 "falsey" 4 8 9) None (mkPtok 40 "," 4 15 10))); (MIDecl (mkMetaDecl (mkSpan (mkPtok 22 "u32" 5 0 12) (mkPtok 40 "," 6 0 15)) (TyBasic (mkSpan (mkPtok 22 "u32" 5 0 12) (mkPtok 22 "u32" 5 0 12)) (mkBasicType (mkSpan (mkPtok 22 "u32" 5 0 12) (mkPtok 22 "u32" 5 0 12)) (mkPtok 22 "u32" 5 0 12))) (mkPtok 42 "MetaDataX" 5 4 13) None (mkPtok 40 "," 6 0 15))); (MIRef (mkRefMetaDecl (mkSpan (mkPtok 42 "Header" 6 2 16) (mkPtok 40 "," 6 18 18)) (mkPtok 42 "Header" 6 2 16) (mkPtok 42 "metadata" 6 9 17) None (mkPtok 40 "," 6 18 18))); (MIRef (mkRefMetaDecl (mkSpan (mkPtok 42 "zchar" 7 0 19) (mkPtok 40 "," 7 9 21)) (mkPtok 42 "zchar" 7 0 19) (mkPtok 42 "len" 7 6 20) None (mkPtok 40 "," 7 9 21)))] (mkPtok 3 "}" 7 11 22))); (DOption (mkOptionDef (mkSpan (mkPtok 1 "options" 7 12 23) (mkPtok 3 "}" 12 0 35)) (mkPtok 1 "options" 7 12 23) (mkPtok 2 "{" 8 0 24) [(mkOptionDecl (mkSpan (mkPtok 42 "u8x" 9 4 25) (mkPtok 33 "'0'" 9 10 27)) (mkPtok 42 "u8x" 9 4 25) (mkPtok 4 "=" 9 8 26) (VPaddingChar (mkSpan (mkPtok 33 "'0'" 9 10 27) (mkPtok 33 "'0'" 9 10 27)) (mkPtok 33 "'0'" 9 10 27)) None); (mkOptionDecl (mkSpan (mkPtok 42 "calculatedFrom" 9 14 28) (mkPtok 13 "]" 9 48 32)) (mkPtok 42 "calculatedFrom" 9 14 28) (mkPtok 4 "=" 9 29 29) (VType (mkSpan (mkPtok 14 "zchar[" 9 30 30) (mkPtok 13 "]" 9 48 32)) (TyFixed (mkSpan (mkPtok 14 "zchar[" 9 30 30) (mkPtok 13 "]" 9 48 32)) (mkFixedString (mkSpan (mkPtok 14 "zchar[" 9 30 30) (mkPtok 13 "]" 9 48 32)) (mkPtok 14 "zchar[" 9 30 30) (mkPtok 30 "4294967296" 9 37 31) (mkPtok 13 "]" 9 48 32)))) None)] (mkPtok 3 "}" 12 0 35))); (DMeta (mkMetaDef (mkSpan (mkPtok 37 "MetaData" 12 2 36) (mkPtok 3 "}" 12 17 39)) (mkPtok 37 "MetaData" 12 2 36) (mkPtok 42 "Pad" 12 12 37) (mkPtok 2 "{" 12 16 38) [] (mkPtok 3 "}" 12 17 39)))])).
+Eval vm_compute in ("<<<M121>>>" ++ check (runes_of_ascii "
+packet Pad{ @lengthOf(
+    msg_type)match u8x as u {
+10: msg_type
+// @lengthOf(
+// c
+255 : roots
+    , ""CRC32""
 :
-options1, 00 // c
-:x_y_z , 4294967296 :
-chars , } ,float32 matchKey
+// " ++ [128512]%N ++ runes_of_ascii " emoji
+// `tick` ""quote"" 'q'
+BodyLength [ 1, ""a\""b""  ] : trueish ,} ,
+//	t
+//	t
+}")).
+Eval vm_compute in ("<<<M131>>>" ++ check (runes_of_ascii "packet u8x {  @calculatedFrom( ""1""
+)
+// 50% %s
+// " ++ [27880; 37322]%N ++ runes_of_ascii "
+repeat	msg_type	{
+repeat f64 Packet
+    `{ , }` ,
+repeat int32 rootA, zchar[ 3 ] // a // b
+metadata ,zchar[00]x_y_z @calculatedFrom(
+""CRC32"" ) ,
+    }, leftPad
+    zchar,@lengthOf( body  ) match Foo as _x {
+// " ++ [128512]%N ++ runes_of_ascii " emoji
+// " ++ [27880; 37322]%N ++ runes_of_ascii "
+""" ++ [28040; 24687]%N ++ runes_of_ascii """
+    : Packet }
+,}	MetaData trueish{
+    // `tick` ""quote"" 'q'
+    zchar[ 0]
+metadata `two words`
+,
+zchar
+    x_y_z `
+`
+,// " ++ [27880; 37322]%N ++ runes_of_ascii "
+u8x lengthOf , } packet u128 {  @calculatedFrom( ""a\""b"" ) repeat float32 As
+`// not a comment`
+, uint16 BodyLength
+    @calculatedFrom(""a	b"" )  `` ,repeat zchar[
+4294967296 ] stringy // @lengthOf(
+`// not a comment`,@leftPad // 50% %s
+(
+'\x00'/// triple
+) int8 body
+, @lengthOf( stringy )
+roots
+{ zchar[ 10
+] packetx, }
+,@rightPad (  '\x00'
+//
+// " ++ [27880; 37322]%N ++ runes_of_ascii "
+) As uint8x	,
+// @lengthOf(
+// c
+repeat zchar[ 007] Packet,  string int , } packet// a // b
+lengthOf {int64
+u@lengthOf( rootA
+    ) ,repeat pack
+, repeat asx//x
+{match string_ as // packet A { u8 x, }
+Logon { 0123456789 : msg_type
+    , } , repeat
+    // " ++ [27880; 37322]%N ++ runes_of_ascii "
+    rootA `{ , }`
+    ,
+    }
+    , }
+root packet int { }
+")).
+Eval vm_compute in ("<<<M141>>>" ++ check (runes_of_ascii "// @lengthOf(
+packet repeatCount {	} MetaData o {asx crc , }
+")).
+Eval vm_compute in ("<<<M151>>>" ++ check (runes_of_ascii "//	t
+packet asx
+{ repeat i32 u8x ,
+    @calculatedFrom( ""it's""
+)
+    match uint8x as matchKey { 1  :
+// packet A { u8 x, }
+// " ++ [128512]%N ++ runes_of_ascii " emoji
+chars ,
+    // `tick` ""quote"" 'q'
+    [255 ]
+:
+    matchKey
+, ""a	b"":	pack ,
+    """" :	trueish
+}, @leftPad ( '\x00')
+char[]	A@calculatedFrom(""a\\""
+    ),
+    // trailing space 
+    match //	t
+MetaDataX as uint8x {
+    [ ""a	b""
+] : As  } , uint8x
+{ matchKey {int x_y_z
+    // packet A { u8 x, }
+    ,}
+    , //
+}// @lengthOf(
+, u8 Logon @lengthOf(  matchKey
+    ) , float64 msg_type
+@lengthOf( zchar ) ,float x_y_z , @rightPad (  '\x00')match	matchKey	as	lengthOf { [ """ ++ [233]%N ++ runes_of_ascii "t" ++ [233]%N ++ runes_of_ascii """
+// packet A { u8 x, }
+// 50% %s
+,	""{,}""	,3	,// @lengthOf(
+""\n""
+    , 0
+, ""1"" ,""x y"" ] : u
+, 10 : // 50% %s
+f32a  , 1: chars // @lengthOf(
+,42
+: Foo 65535: Header
+    ,["""" ] : //x
+body , } ,
+    //x
+    match
+metadata as trueish { """"
+:metadata ,""`tick`""
+    : float,	255 : x ,
+    } ,
+} packet trueish { @lengthOf( stringy ) zchar[ 7 ] x `crlf
+line` ,
+repeat MetaDataX { i16 Z9_ `two words` , },  @lengthOf( zchar//
+) match metadata as	a1 {
+    [ // " ++ [128512]%N ++ runes_of_ascii " emoji
+""CRC32"" ] : i8i8 ,""a	b""
+    :x_y_z ,[ ""1""
+,""abc"" ,007 , // `tick` ""quote"" 'q'
+4294967296 , 00	,
+""// no comment"" ,
+    // `tick` ""quote"" 'q'
+    ""a\""b""  ]	:
+chars , [ ""`tick`"" , ""\" ++ [233]%N ++ runes_of_ascii """ ,	""x y""
+,
+""a	b"" , ""a\""b""
+, ""`tick`""
     //x
     ,
-T
-,}
-")).
-Eval vm_compute in ("<<<M291>>>" ++ check (runes_of_ascii "// " ++ [128512]%N ++ runes_of_ascii " emoji
-MetaData trueish {
+00	] : leftPad, 65535 : Z9_
+    // " ++ [128512]%N ++ runes_of_ascii " emoji
+    , } , @lengthOf(
+falsey )
+repeat
+    i8i8 ,@calculatedFrom( ""\n"" )// a // b
+char[ 42	] // `tick` ""quote"" 'q'
+charz  @calculatedFrom( """ ++ [128512]%N ++ runes_of_ascii """)
+    , repeat char[] stringy `tab	here`, Packet  @lengthOf( BodyLength )  `" ++ [28040; 24687; 31867; 22411]%N ++ runes_of_ascii "` ,
+string u128, i8 o
+// c
+// 50% %s
+`
+` , // 50% %s
+@leftPad (
+'0'
+    ) repeat
+string Header, } options{ crc =char[007
+] packetx=7 ;	} 	 ")).
+Eval vm_compute in ("<<<M161>>>" ++ check (runes_of_ascii "  packet
+asx { match i8i8 as tag /// triple
+{ 4294967296 : i8i8
+,
+10 : Header 10 : zchar }
+    ,
+uint8
+    uint8x
+    , repeat int a1`{ , }` // c
+, @lengthOf( asx) // 50% %s
+repeat
+metadata
+,  } MetaData
+As{Packet A
+,zchar[
+0 ]Pad`two words`,
+u16 T // @lengthOf(
+, } // " ++ [27880; 37322]%N ++ runes_of_ascii "
+root packet Header {
+    float32//x
+Foo@calculatedFrom(
+""abc"" )
+/// triple
+// a // b
+,@leftPad
+    ( )
+repeat string
+    string_	, string leftPad // " ++ [128512]%N ++ runes_of_ascii " emoji
+`say ""hi""` ,
+    @tag(4294967296 )
+    @calculatedFrom( """ ++ [28040; 24687]%N ++ runes_of_ascii """ )
+    char[] // @lengthOf(
+f32a @lengthOf(
+    Pad
+) , int64 Foo ,  zchar[
+4294967296
+]
     // @lengthOf(
-    asx lengthOf
-    // a // b
-    , int8 // c
-float`it's`
-,}
-MetaData
-int{ int8
-charz ,} packet asx { o @calculatedFrom(
-""\" ++ [233]%N ++ runes_of_ascii """
-    ) ,
-}
+    tag ,  asx `` ,
+    // 50% %s
+    T @lengthOf( A )
+// a // b
+// `tick` ""quote"" 'q'
+`tab	here`	,}options
+{
+chars =
+f32 }
 ")).
+Eval vm_compute in ("<<<M171>>>" ++ check (runes_of_ascii "packet Foo {  @calculatedFrom( """"	)
+@calculatedFrom( ""1"" ) @rightPad(
+) int32
+    As
+@calculatedFrom( """" )
+    `a\`
+//x
+//	t
+,
+@calculatedFrom( ""\n"" )
+char[65535// @lengthOf(
+] asx ,repeat // a // b
+int8
+    // packet A { u8 x, }
+    trueish `` , } packet
+A { @tag(4294967296 ) uint16 Logon @calculatedFrom(
+    // `tick` ""quote"" 'q'
+    """ ++ [233]%N ++ runes_of_ascii "t" ++ [233]%N ++ runes_of_ascii """ ), // `tick` ""quote"" 'q'
+@lengthOf( As )
+repeat MetaDataX
+    falsey
+`u8 x,` ,@calculatedFrom(""\n""
+    )	match repeatCount
+as
+A {	4294967296 :
+zchar
+    } , match
+crc
+    // `tick` ""quote"" 'q'
+    as float { 255
+    :u , } ,} root
+/// triple
+//	t
+packet matchKey { string MetaDataX `a\`
+, BodyLength
+{ match repeatCount as
+len {//x
+""" ++ [28040; 24687]%N ++ runes_of_ascii """ : asx 3  :
+MetaDataX , """ ++ [28040; 24687]%N ++ runes_of_ascii """:// 50% %s
+len
+    ,  ""x y"":msg_type
+,  [
+    4294967296 ]
+: asx ,
+    ""it's""	: repeatCount ,}, zchar[ 0123456789
+] Z9_ @calculatedFrom( ""a\\""  ) ,	repeat  zchar[10 ] lengthOf `
+`,
+uint16 tag `u8 x,` , } // " ++ [27880; 37322]%N ++ runes_of_ascii "
+,@leftPad
+    ( ) u128 trueish,
+    // c
+    }")).
+Eval vm_compute in ("<<<M181>>>" ++ check (runes_of_ascii "
+packet// 50% %s
+rootA// 50% %s
+{ //
+}")).
+Eval vm_compute in ("<<<T181>>>" ++ terms [mkTok 35 "packet" 2 0 false; mkTok 44 "// 50% %s" 2 6 true; mkTok 42 "rootA" 3 0 false; mkTok 44 "// 50% %s" 3 5 true; mkTok 2 "{" 4 0 false; mkTok 44 "//" 4 2 true; mkTok 3 "}" 5 0 false; mkTok 0 "<EOF>" 5 1 false] (mkPacket (mkPtok 35 "packet" 2 0 0) (Some (mkPtok 3 "}" 5 0 6)) [(DPacket (mkPacketDef (mkSpan (mkPtok 35 "packet" 2 0 0) (mkPtok 3 "}" 5 0 6)) None (mkPtok 35 "packet" 2 0 0) (mkPtok 42 "rootA" 3 0 2) (mkPtok 2 "{" 4 0 4) [] (mkPtok 3 "}" 5 0 6)))])).
+Eval vm_compute in ("<<<M191>>>" ++ check (runes_of_ascii "
+ // a // b")).
+Eval vm_compute in ("<<<M201>>>" ++ check (runes_of_ascii "options // a // b
+{
+}
+    root
+    packet	A{
+    @tag( 00 )
+int64 u8x
+,// @lengthOf(
+@calculatedFrom( ""a\""b"" )// packet A { u8 x, }
+repeat
+    crc
+    , @tag(
+    10
+) x_y_z , char[] u`line1
+line2`	, }
+    root packet leftPad { float
+@lengthOf(
+packetx )	, match msg_type
+as
+    // `tick` ""quote"" 'q'
+    matchKey{ [ ""it's"" , ""x y"",
+1 ] // " ++ [128512]%N ++ runes_of_ascii " emoji
+:i8i8 , [ ""a	b""
+, 42
+// `tick` ""quote"" 'q'
+// @lengthOf(
+,
+    // packet A { u8 x, }
+    00 ] :
+    string_// c
+,  """ ++ [28040; 24687]%N ++ runes_of_ascii """ :asx,} ,char[ // a // b
+0123456789
+    ] roots  `say ""hi""` , }
+// " ++ [27880; 37322]%N ++ runes_of_ascii "
+")).
+Eval vm_compute in ("<<<M211>>>" ++ check (runes_of_ascii "packet MetaDataX { int @calculatedFrom( ""`tick`"" ) ,
+}")).
+Eval vm_compute in ("<<<M221>>>" ++ check (runes_of_ascii "options {// " ++ [27880; 37322]%N ++ runes_of_ascii "
+len =
+    // a // b
+    ""a\\""
+    stringy = char[] ; // @lengthOf(
+A = 0 ;	len =int64 packetx = ""`tick`"" }")).
+Eval vm_compute in ("<<<M231>>>" ++ check (runes_of_ascii "
+packet
+    u128{
+    // " ++ [128512]%N ++ runes_of_ascii " emoji
+    a1	T
+//x
+//
+`u8 x,` , repeat packetx { repeat zchar[ 255
+    ] _x,
+f32a@lengthOf( stringy ) ``, }
+    , stringy ,asx @lengthOf( u128 )
+, }
+
+")).
+Eval vm_compute in ("<<<M241>>>" ++ check (runes_of_ascii "
+packet msg_type
+{ match
+    x_y_z as i8i8  { 0:As
+// `tick` ""quote"" 'q'
+//
+,""packet"":
+    // " ++ [27880; 37322]%N ++ runes_of_ascii "
+    T
+    , [
+65535 , ""1"" ,00 , """ ++ [128512]%N ++ runes_of_ascii """
+,  4294967296,
+// " ++ [27880; 37322]%N ++ runes_of_ascii "
+//	t
+4294967296 ] : Logon// `tick` ""quote"" 'q'
+,
+[  ""\n"" ,// @lengthOf(
+""packet"" ,
+""// no comment""  ,1 , 1 ,
+    ""`tick`""]  : rootA ,0123456789:falsey , } , As o , char[0 ]  float `// not a comment` , @calculatedFrom(""abc"")	@tag( 4294967296 ) repeat float32 BodyLength`crlf
+line`
+, msg_type @calculatedFrom(
+""" ++ [128512]%N ++ runes_of_ascii """ )
+// " ++ [27880; 37322]%N ++ runes_of_ascii "
+// @lengthOf(
+`a\` // `tick` ""quote"" 'q'
+,
+repeat int64 body , int16 a1 // trailing space 
+@calculatedFrom( ""it's""
+    // @lengthOf(
+    ) , i16 //x
+float `u8 x,`
+    ,
+    @leftPad // " ++ [27880; 37322]%N ++ runes_of_ascii "
+(	'\x00' // " ++ [27880; 37322]%N ++ runes_of_ascii "
+)// c
+uint32 roots ,
+    } packet Header { @calculatedFrom( ""`tick`"" ) char[
+    00 ] packetx , @lengthOf( matchKey ) repeatCount
+x_y_z
+`{ , }` ,
+}")).
+Eval vm_compute in ("<<<M251>>>" ++ check (runes_of_ascii "packet	a1 {}")).
+Eval vm_compute in ("<<<T251>>>" ++ terms [mkTok 35 "packet" 1 0 false; mkTok 42 "a1" 1 7 false; mkTok 2 "{" 1 10 false; mkTok 3 "}" 1 11 false; mkTok 0 "<EOF>" 1 12 false] (mkPacket (mkPtok 35 "packet" 1 0 0) (Some (mkPtok 3 "}" 1 11 3)) [(DPacket (mkPacketDef (mkSpan (mkPtok 35 "packet" 1 0 0) (mkPtok 3 "}" 1 11 3)) None (mkPtok 35 "packet" 1 0 0) (mkPtok 42 "a1" 1 7 1) (mkPtok 2 "{" 1 10 2) [] (mkPtok 3 "}" 1 11 3)))])).
+Eval vm_compute in ("<<<M261>>>" ++ check (runes_of_ascii "root packet
+x_y_z { repeat
+    options1 {
+int8 len // packet A { u8 x, }
+, zchar[  00
+] A // trailing space 
+@calculatedFrom(
+""CRC32""
+    ), zchar[255 ] body
+`line1
+line2` ,
+char[3  ]
+// trailing space 
+// packet A { u8 x, }
+MetaDataX ,  } ,
+    string zchar @calculatedFrom( ""\" ++ [233]%N ++ runes_of_ascii """ ) , }packet //	t
+roots {
+@rightPad ('\x00') repeat len
+, string options1 ,	string As
+    `" ++ [233]%N ++ runes_of_ascii "`
+,
+}")).
+Eval vm_compute in ("<<<M271>>>" ++ check (runes_of_ascii "MetaData
+o
+    {
+// 50% %s
+// " ++ [27880; 37322]%N ++ runes_of_ascii "
+Foo _x, }
+MetaData // 50% %s
+trueish //	t
+{ u8 crc
+`" ++ [233]%N ++ runes_of_ascii "` ,u64 charz `" ++ [28040; 24687; 31867; 22411]%N ++ runes_of_ascii "` , //x
+zchar[
+    00	] // @lengthOf(
+string_,	}	packet// c
+metadata { @leftPad ( '\x00') u128@lengthOf( len ) , @lengthOf(
+    u128 // a // b
+)
+    x , @lengthOf(
+int
+    ) zchar[3 ] Logon @lengthOf(
+Logon )  `" ++ [233]%N ++ runes_of_ascii "`
+    ,Pad
+    roots ,	} // 50% %s")).
+Eval vm_compute in ("<<<M281>>>" ++ check (runes_of_ascii "options { Header
+=
+    ""a\\"" }packet x{ } packet repeatCount{zchar[ 00 ] asx,
+@calculatedFrom( ""// no comment"" ) match body as Logon
+{ ""abc""
+:	chars
+42	: A
+,
+""// no comment"":
+crc , [ """"
+]: f32a , 4294967296 : falsey ""x y""	: u8x },	@rightPad(
+    ' ' ) u32
+stringy @lengthOf(	lengthOf) ,  Foo `say ""hi""`// packet A { u8 x, }
+,
+crc `100% of %d` , @leftPad( '\x00' )
+u8x o , zchar[
+255	]
+tag `u8 x,`	,} packet f32a { }
+// @lengthOf(
+// @lengthOf(
+root packet
+// packet A { u8 x, }
+// 50% %s
+msg_type {
+@calculatedFrom(  ""`tick`""
+    )char[]crc
+, int	options1
+, //
+asx ,}
+")).
+Eval vm_compute in ("<<<M291>>>" ++ check (runes_of_ascii "MetaData u128 {} //	t")).
 Eval vm_compute in ("<<<M301>>>" ++ check (runes_of_ascii "options {
 	StringPrefixLenType = u16;
 	ArrayPrefixLenType = u16;
@@ -1088,128 +928,280 @@ packet Detail {
     string RuleName `" ++ [35268; 21017; 21517; 31216]%N ++ runes_of_ascii "`,
     u16 Code `" ++ [21407; 22240; 20195; 30721]%N ++ runes_of_ascii "`,
 }")).
-Eval vm_compute in ("<<<M311>>>" ++ check (runes_of_ascii "asx
-packet
-{ Z9_ Header// " ++ [128512]%N ++ runes_of_ascii " emoji
-,} packet pack
-    { }
+Eval vm_compute in ("<<<M311>>>" ++ check (runes_of_ascii "crc
+MetaData	{ char[] Z9_`{ , }`,} options { tag =
+    false } packet
+// a // b
+// @lengthOf(
+Pad {Foo @calculatedFrom( // `tick` ""quote"" 'q'
+""a\\"" ) ,
+    trueish ,
+    char[ 00]
+    // " ++ [128512]%N ++ runes_of_ascii " emoji
+    packetx , }
 ")).
-Eval vm_compute in ("<<<M321>>>" ++ check (runes_of_ascii "packet
-asx
-Z9_ { Header// " ++ [128512]%N ++ runes_of_ascii " emoji
-,} packet pack
-    { }
+Eval vm_compute in ("<<<M321>>>" ++ check (runes_of_ascii "MetaData
+crc	char[] { Z9_`{ , }`,} options { tag =
+    false } packet
+// a // b
+// @lengthOf(
+Pad {Foo @calculatedFrom( // `tick` ""quote"" 'q'
+""a\\"" ) ,
+    trueish ,
+    char[ 00]
+    // " ++ [128512]%N ++ runes_of_ascii " emoji
+    packetx , }
 ")).
-Eval vm_compute in ("<<<M331>>>" ++ check (runes_of_ascii "packet
-asx
-{ Z9_ ,// " ++ [128512]%N ++ runes_of_ascii " emoji
-Header} packet pack
-    { }
+Eval vm_compute in ("<<<M331>>>" ++ check (runes_of_ascii "MetaData
+crc	{ char[] `{ , }`Z9_,} options { tag =
+    false } packet
+// a // b
+// @lengthOf(
+Pad {Foo @calculatedFrom( // `tick` ""quote"" 'q'
+""a\\"" ) ,
+    trueish ,
+    char[ 00]
+    // " ++ [128512]%N ++ runes_of_ascii " emoji
+    packetx , }
 ")).
-Eval vm_compute in ("<<<M341>>>" ++ check (runes_of_ascii "packet
-asx
-{ Z9_ Header// " ++ [128512]%N ++ runes_of_ascii " emoji
-,packet } pack
-    { }
+Eval vm_compute in ("<<<M341>>>" ++ check (runes_of_ascii "MetaData
+crc	{ char[] Z9_`{ , }`}, options { tag =
+    false } packet
+// a // b
+// @lengthOf(
+Pad {Foo @calculatedFrom( // `tick` ""quote"" 'q'
+""a\\"" ) ,
+    trueish ,
+    char[ 00]
+    // " ++ [128512]%N ++ runes_of_ascii " emoji
+    packetx , }
 ")).
-Eval vm_compute in ("<<<M351>>>" ++ check (runes_of_ascii "packet
-asx
-{ Z9_ Header// " ++ [128512]%N ++ runes_of_ascii " emoji
-,} packet {
-    pack }
+Eval vm_compute in ("<<<M351>>>" ++ check (runes_of_ascii "MetaData
+crc	{ char[] Z9_`{ , }`,} { options tag =
+    false } packet
+// a // b
+// @lengthOf(
+Pad {Foo @calculatedFrom( // `tick` ""quote"" 'q'
+""a\\"" ) ,
+    trueish ,
+    char[ 00]
+    // " ++ [128512]%N ++ runes_of_ascii " emoji
+    packetx , }
 ")).
-Eval vm_compute in ("<<<M361>>>" ++ check (runes_of_ascii "packet
-asx
-{ Z9_ Header// " ++ [128512]%N ++ runes_of_ascii " emoji
-,} packet pack
-    { ,
+Eval vm_compute in ("<<<M361>>>" ++ check (runes_of_ascii "MetaData
+crc	{ char[] Z9_`{ , }`,} options { = tag
+    false } packet
+// a // b
+// @lengthOf(
+Pad {Foo @calculatedFrom( // `tick` ""quote"" 'q'
+""a\\"" ) ,
+    trueish ,
+    char[ 00]
+    // " ++ [128512]%N ++ runes_of_ascii " emoji
+    packetx , }
 ")).
-Eval vm_compute in ("<<<M371>>>" ++ check (runes_of_ascii "packet
-asx
-{ Z9_ Header// " ++ [233; 128512]%N ++ runes_of_ascii " emoji
-,} packet pack
-    { }
+Eval vm_compute in ("<<<M371>>>" ++ check (runes_of_ascii "MetaData
+crc	{ char[] Z9_`{ , }`,} options { tag =
+    } false packet
+// a // b
+// @lengthOf(
+Pad {Foo @calculatedFrom( // `tick` ""quote"" 'q'
+""a\\"" ) ,
+    trueish ,
+    char[ 00]
+    // " ++ [128512]%N ++ runes_of_ascii " emoji
+    packetx , }
 ")).
-Eval vm_compute in ("<<<T371>>>" ++ terms [mkTok 35 "packet" 1 0 false; mkTok 42 "asx" 2 0 false; mkTok 2 "{" 3 0 false; mkTok 42 "Z9_" 3 2 false; mkTok 42 "Header" 3 6 false; mkTok 44 (string_of_bytes [47; 47; 32; 195; 169; 240; 159; 152; 128; 32; 101; 109; 111; 106; 105]%N) 3 12 true; mkTok 40 "," 4 0 false; mkTok 3 "}" 4 1 false; mkTok 35 "packet" 4 3 false; mkTok 42 "pack" 4 10 false; mkTok 2 "{" 5 4 false; mkTok 3 "}" 5 6 false; mkTok 0 "<EOF>" 6 0 false] (mkPacket (mkPtok 35 "packet" 1 0 0) (Some (mkPtok 3 "}" 5 6 11)) [(DPacket (mkPacketDef (mkSpan (mkPtok 35 "packet" 1 0 0) (mkPtok 3 "}" 4 1 7)) None (mkPtok 35 "packet" 1 0 0) (mkPtok 42 "asx" 2 0 1) (mkPtok 2 "{" 3 0 2) [(mkFieldWithAttr (mkSpan (mkPtok 42 "Z9_" 3 2 3) (mkPtok 40 "," 4 0 6)) [] (ObjectField (mkSpan (mkPtok 42 "Z9_" 3 2 3) (mkPtok 40 "," 4 0 6)) None (mkPtok 42 "Z9_" 3 2 3) (Some (mkPtok 42 "Header" 3 6 4)) None (mkPtok 40 "," 4 0 6)))] (mkPtok 3 "}" 4 1 7))); (DPacket (mkPacketDef (mkSpan (mkPtok 35 "packet" 4 3 8) (mkPtok 3 "}" 5 6 11)) None (mkPtok 35 "packet" 4 3 8) (mkPtok 42 "pack" 4 10 9) (mkPtok 2 "{" 5 4 10) [] (mkPtok 3 "}" 5 6 11)))])).
-Eval vm_compute in ("<<<M381>>>" ++ check (runes_of_ascii "p'1'acket
-asx
-{ Z9_ Header// " ++ [128512]%N ++ runes_of_ascii " emoji
-,} packet pack
-    { }
+Eval vm_compute in ("<<<M381>>>" ++ check (runes_of_ascii "MetaData
+crc	{ char[] Z9_`{ , }`,} options { tag =
+    false } Pad
+// a // b
+// @lengthOf(
+packet {Foo @calculatedFrom( // `tick` ""quote"" 'q'
+""a\\"" ) ,
+    trueish ,
+    char[ 00]
+    // " ++ [128512]%N ++ runes_of_ascii " emoji
+    packetx , }
 ")).
-Eval vm_compute in ("<<<M391>>>" ++ check (runes_of_ascii "MetaData o o { char[ // `tick` ""quote"" 'q'
-3] body, } packet o{
-u8
-charz ,
-    }")).
-Eval vm_compute in ("<<<M401>>>" ++ check (runes_of_ascii "MetaData o { char[ char[ // `tick` ""quote"" 'q'
-3] body, } packet o{
-u8
-charz ,
-    }")).
-Eval vm_compute in ("<<<M411>>>" ++ check (runes_of_ascii "MetaData o { char[ // `tick` ""quote"" 'q'
-3] ] body, } packet o{
-u8
-charz ,
-    }")).
-Eval vm_compute in ("<<<M421>>>" ++ check (runes_of_ascii "MetaData o { char[ // `tick` ""quote"" 'q'
-3] body, , } packet o{
-u8
-charz ,
-    }")).
-Eval vm_compute in ("<<<M431>>>" ++ check (runes_of_ascii "MetaData o { char[ // `tick` ""quote"" 'q'
-3] body, } packet packet o{
-u8
-charz ,
-    }")).
-Eval vm_compute in ("<<<M441>>>" ++ check (runes_of_ascii "MetaData o { char[ // `tick` ""quote"" 'q'
-3] body, } packet o{ {
-u8
-charz ,
-    }")).
-Eval vm_compute in ("<<<M451>>>" ++ check (runes_of_ascii "MetaData o { char[ // `tick` ""quote"" 'q'
-3] body, } packet o{
-u8
-charz charz ,
-    }")).
-Eval vm_compute in ("<<<M461>>>" ++ check (runes_of_ascii "MetaData o { char[ // `tick` ""quote"" 'q'
-3] body, } packet o{
-u8
-charz ,
-    } }")).
-Eval vm_compute in ("<<<M471>>>" ++ check (runes_of_ascii "MetaData o "" { char[ // `tick` ""quote"" 'q'
-3] body, } packet o{
-u8
-charz ,
-    }")).
-Eval vm_compute in ("<<<M481>>>" ++ check (runes_of_ascii "MetaData o { char[ // `tick` ""quote"" 'q'
-3] body, } ?packet o{
-u8
-charz ,
-    }")).
-Eval vm_compute in ("<<<M491>>>" ++ check (runes_of_ascii "options calculatedFrom =	int8 ;}
-
+Eval vm_compute in ("<<<M391>>>" ++ check (runes_of_ascii "MetaData
+crc	{ char[] Z9_`{ , }`,} options { tag =
+    false } packet
+// a // b
+// @lengthOf(
+Pad Foo{ @calculatedFrom( // `tick` ""quote"" 'q'
+""a\\"" ) ,
+    trueish ,
+    char[ 00]
+    // " ++ [128512]%N ++ runes_of_ascii " emoji
+    packetx , }
 ")).
-Eval vm_compute in ("<<<M501>>>" ++ check (runes_of_ascii "options {calculatedFrom 	int8 ;}
-
+Eval vm_compute in ("<<<M401>>>" ++ check (runes_of_ascii "MetaData
+crc	{ char[] Z9_`{ , }`,} options { tag =
+    false } packet
+// a // b
+// @lengthOf(
+Pad {Foo ""a\\"" // `tick` ""quote"" 'q'
+@calculatedFrom( ) ,
+    trueish ,
+    char[ 00]
+    // " ++ [128512]%N ++ runes_of_ascii " emoji
+    packetx , }
 ")).
-Eval vm_compute in ("<<<M511>>>" ++ check (runes_of_ascii "options {calculatedFrom =	int8 }
-
+Eval vm_compute in ("<<<M411>>>" ++ check (runes_of_ascii "MetaData
+crc	{ char[] Z9_`{ , }`,} options { tag =
+    false } packet
+// a // b
+// @lengthOf(
+Pad {Foo @calculatedFrom( // `tick` ""quote"" 'q'
+""a\\"" , )
+    trueish ,
+    char[ 00]
+    // " ++ [128512]%N ++ runes_of_ascii " emoji
+    packetx , }
 ")).
-Eval vm_compute in ("<<<M521>>>" ++ check (runes_of_ascii "options")).
-Eval vm_compute in ("<<<M531>>>" ++ check (runes_of_ascii "options {calculatedFrom =	int8 ;}
-
-%")).
-Eval vm_compute in ("<<<M541>>>" ++ check (runes_of_ascii "options {a" ++ [769]%N ++ runes_of_ascii "b =	int8 ;}
-
+Eval vm_compute in ("<<<M421>>>" ++ check (runes_of_ascii "MetaData
+crc	{ char[] Z9_`{ , }`,} options { tag =
+    false } packet
+// a // b
+// @lengthOf(
+Pad {Foo @calculatedFrom( // `tick` ""quote"" 'q'
+""a\\"" ) ,
+    , trueish
+    char[ 00]
+    // " ++ [128512]%N ++ runes_of_ascii " emoji
+    packetx , }
 ")).
-Eval vm_compute in ("<<<M551>>>" ++ check (runes_of_ascii "
-MetaData chars {Logon packetx,")).
-Eval vm_compute in ("<<<M561>>>" ++ check (runes_of_ascii "
-MetaData chars {Logon packetx,
-    float calculatedFrom
-,  [ i64_ ,	}")).
+Eval vm_compute in ("<<<M431>>>" ++ check (runes_of_ascii "MetaData
+crc	{ char[] Z9_`{ , }`,} options { tag =
+    false } packet
+// a // b
+// @lengthOf(
+Pad {Foo @calculatedFrom( // `tick` ""quote"" 'q'
+""a\\"" ) ,
+    trueish ,
+    00 char[ ]
+    // " ++ [128512]%N ++ runes_of_ascii " emoji
+    packetx , }
+")).
+Eval vm_compute in ("<<<M441>>>" ++ check (runes_of_ascii "MetaData
+crc	{ char[] Z9_`{ , }`,} options { tag =
+    false } packet
+// a // b
+// @lengthOf(
+Pad {Foo @calculatedFrom( // `tick` ""quote"" 'q'
+""a\\"" ) ,
+    trueish ,
+    char[ 00 packetx
+    // " ++ [128512]%N ++ runes_of_ascii " emoji
+    ] , }
+")).
+Eval vm_compute in ("<<<M451>>>" ++ check (runes_of_ascii "MetaData
+crc	{ char[] Z9_`{ , }`,} options { tag =
+    false } packet
+// a // b
+// @lengthOf(
+Pad {Foo @calculatedFrom( // `tick` ""quote"" 'q'
+""a\\"" ) ,
+    trueish ,
+    char[ 00]
+    // " ++ [128512]%N ++ runes_of_ascii " emoji
+    packetx } ,
+")).
+Eval vm_compute in ("<<<M461>>>" ++ check (runes_of_ascii "MetaData
+crc	{ char[] Z9_`{ , }`,} options { tag =
+    false } packet
+// a // b
+// @lengthOf(
+Pad {Foo @calculatedFrom( // `tick` ""quote"" 'q'
+""a\\"" ) ,
+    trueish ,
+    char[ 00]
+    ")).
+Eval vm_compute in ("<<<M471>>>" ++ check (runes_of_ascii "MetaData
+crc	{ char[] Z9_`{ , }`,} options { tag =
+    false } packet
+// a // b
+// @lengthOf(
+Pad {Foo @calculatedFrom( // `tick` ""quote"" 'q'
+""a\\"" ) ,
+    trueish '',
+    char[ 00]
+    // " ++ [128512]%N ++ runes_of_ascii " emoji
+    packetx , }
+")).
+Eval vm_compute in ("<<<M481>>>" ++ check (runes_of_ascii "root packet _x	{ @rightPad (
+' ' ) string u8x @lengthOf(
+    _x
+) , repeat Pad Pad  { // " ++ [128512]%N ++ runes_of_ascii " emoji
+As
+// `tick` ""quote"" 'q'
+//x
+{matchKey chars,
+} , }, }")).
+Eval vm_compute in ("<<<M491>>>" ++ check (runes_of_ascii "root packet _x	{ @rightPad 
+' ' ) string u8x @lengthOf(
+    _x
+) , repeat Pad  { // " ++ [128512]%N ++ runes_of_ascii " emoji
+As
+// `tick` ""quote"" 'q'
+//x
+{matchKey chars,
+} , }, }")).
+Eval vm_compute in ("<<<M501>>>" ++ check (runes_of_ascii "root packet _x")).
+Eval vm_compute in ("<<<M511>>>" ++ check (runes_of_ascii "root packet _x	{ @rightPad (
+' ' ) string u8x @lengthOf(
+    string
+) , repeat Pad  { // " ++ [128512]%N ++ runes_of_ascii " emoji
+As
+// `tick` ""quote"" 'q'
+//x
+{matchKey chars,
+} , }, }")).
+Eval vm_compute in ("<<<M521>>>" ++ check (runes_of_ascii "root packet _x	{ @rightPad (
+' ' ) string u8x @lengthOf(
+    _x
+) , , repeat Pad  { // " ++ [128512]%N ++ runes_of_ascii " emoji
+As
+// `tick` ""quote"" 'q'
+//x
+{matchKey chars,
+} , }, }")).
+Eval vm_compute in ("<<<M531>>>" ++ check (runes_of_ascii "root packet _x	{ @rightPad (
+' ' ) ) string u8x @lengthOf(
+    _x
+) , repeat Pad  { // " ++ [128512]%N ++ runes_of_ascii " emoji
+As
+// `tick` ""quote"" 'q'
+//x
+{matchKey chars,
+} , }, }")).
+Eval vm_compute in ("<<<M541>>>" ++ check (runes_of_ascii "root packet _x	{ @rightPad (
+' ' ) string u8x @lengthOf(
+    _x
+) , repeat Pad  { // " ++ [128512]%N ++ runes_of_ascii " emoji
+As
+// `tick` ""quote"" 'q'
+//x
+{")).
+Eval vm_compute in ("<<<M551>>>" ++ check (runes_of_ascii "root packet _x	{ @rightPad (
+' ' ) string u8x @lengthOf(
+    _x
+ , repeat Pad  { // " ++ [128512]%N ++ runes_of_ascii " emoji
+As
+// `tick` ""quote"" 'q'
+//x
+{matchKey chars,
+} , }, }")).
+Eval vm_compute in ("<<<M561>>>" ++ check (runes_of_ascii "root packet _x	{ @rightPad (
+' ' ) string u8x @lengthOf(
+    _x
+) , repeat Pad  { // " ++ [128512]%N ++ runes_of_ascii " emoji
+As
+// `tick` ""quote"" 'q'
+//x
+{matchKey chars,
+} , }, int16")).
 Eval vm_compute in ("<<<M571>>>" ++ check (runes_of_ascii "/")).
-Eval vm_compute in ("<<<M581>>>" ++ check (runes_of_ascii "H" ++ [65533]%N ++ runes_of_ascii "X8F" ++ [65533; 65533; 65533]%N ++ runes_of_ascii "S" ++ [65533; 65533; 65533; 65533]%N ++ runes_of_ascii "K" ++ [65533; 1331; 65533]%N ++ runes_of_ascii "+" ++ [127; 65533]%N ++ runes_of_ascii ":&" ++ [65533; 65533]%N ++ runes_of_ascii "
-" ++ [65533]%N ++ runes_of_ascii "." ++ [1685; 65533; 65533]%N ++ runes_of_ascii "%" ++ [65533]%N ++ runes_of_ascii "Z")).
-Eval vm_compute in ("<<<M591>>>" ++ check (runes_of_ascii "} [ options @rightPad ""packet"" root packet char[ int8 }")).
+Eval vm_compute in ("<<<M581>>>" ++ check ([65533; 15; 65533]%N ++ runes_of_ascii "bF" ++ [19]%N ++ runes_of_ascii "J" ++ [65533; 65533; 19]%N ++ runes_of_ascii "c&" ++ [65533; 65533; 65533; 65533; 65533]%N ++ runes_of_ascii "^'" ++ [65533; 65533]%N ++ runes_of_ascii "o" ++ [1]%N ++ runes_of_ascii ":	" ++ [65533; 65533]%N)).
+Eval vm_compute in ("<<<M591>>>" ++ check (runes_of_ascii "u8 3 @leftPad @calculatedFrom( {")).
